@@ -1,7 +1,2281 @@
-//! C20 — not built yet (stub keeps the registry stable while modules are written in parallel).
+//! C20 — values and types survive the plugin FFI encoding.
+//!
+//! Subject: `runtime::ffi_serde` (`serialize_value` / `deserialize_value`, `serialize_macro_args` /
+//! `deserialize_macro_args`, `Value::to_ffi_value` / `FfiValue::to_value`) and the hand-written
+//! serde impls `types/serde_impl.rs` (`Type`) and `interpreter/serde_impl.rs` (`Value`).
+//!
+//! The harness keeps its own model of a case (`MV` value trees, `MT` type trees), builds the
+//! repository's `Value` / `Type` from the model, sends it through the encoding and compares what
+//! comes back against the *model* (numbers by bit pattern — bincode writes the raw f64 bits, no NaN
+//! payload is documented to be lost —, strings and record keys by content, code by interner key or
+//! structural print, types structurally through `TypeNodeId::to_type()` ignoring locations).
+//!
+//! Points of the design that the code / the build makes impossible (read before trusting coverage):
+//!  * The harness crate has no `bincode` and no `serde` dependency and Cargo.toml must not be edited,
+//!    so `bincode::serialize(&Type)` cannot be called from here.  What does cross the boundary in the
+//!    repository is the `TypeNodeId` (slotmap key, `#[serde(transparent)]`), and that path IS exercised
+//!    with the real bincode through `serialize_macro_args`.  The hand-written `Serialize`/`Deserialize`
+//!    of `Type` (and of `Value`) are exercised through `serde_json::to_value` / `from_value` with a
+//!    positional transcoding step that imitates what a non-self-describing format does (variant
+//!    content `{"0": x}` -> `x`, `{"0":a,"1":b}` -> `[a,b]`, variant key tried lower-cased and as is).
+//!    That leg sees variant *names* and field contents but not the numeric variant indices bincode uses;
+//!    a swap of two indices in `Serialize` is invisible to it.  Non-finite numbers are kept out of the
+//!    JSON leg for `Value` (JSON has no NaN/inf; the loss would be serde_json's, not the repository's).
+//!  * Interner keys inside encodings depend on how much the process interned before, so encoded bytes
+//!    of values with code / of types are not a pure function of the case.  Distinctness therefore hashes
+//!    an injective structural rendering of the model instead of the encoded bytes.
+//!  * Decoded `ExprNodeId` / `TypeNodeId` are dereferenced with `get_unchecked` by the repository in
+//!    release builds; the harness checks `contains_key` on the public storages before any dereference
+//!    and never dereferences ids decoded from arbitrary bytes.
+//!  * All non-transportable variants are constructible through public API (Closure, Fixpoint,
+//!    ExternalFn, Store, ConstructorFn, ErrorV), as are `Type::Intermediate` and `Type::TypeScheme`.
 
-use crate::engine::case::Prop;
+use crate::engine::case::*;
+use crate::engine::panics;
+use crate::engine::rng::hash64;
+use crate::engine::tape::Gen;
+use mimium_lang::ast::{Expr, Literal};
+use mimium_lang::compiler::EvalStage;
+use mimium_lang::compiler::parser::parse_to_expr;
+use mimium_lang::interner::{ExprNodeId, Symbol, ToSymbol, TypeNodeId, with_session_globals};
+use mimium_lang::interpreter::{ExtFunction, Value};
+use mimium_lang::runtime::ffi_serde::{deserialize_macro_args, deserialize_value, serialize_macro_args, serialize_value};
+use mimium_lang::types::{IntermediateId, PType, RecordTypeField, Type, TypeSchemeId, TypeVar};
+use mimium_lang::utils::environment::Environment;
+use mimium_lang::utils::metadata::Location;
+use serde_json::{Map, Value as J, json};
+use std::cell::RefCell;
+use std::fmt::Write as _;
+use std::rc::Rc;
+use std::sync::{Arc, OnceLock, RwLock};
+
+pub struct C20;
+
+/// known finding: `Value::ErrorV` is encoded as `Ok(FfiValue::ErrorV)` and decodes to `Value::Unit`
+pub const KF_ERRORV: &str = "C20-errorv-becomes-unit";
+
+// ---------------------------------------------------------------- the harness-side model
+
+#[derive(Clone, Debug, PartialEq)]
+pub enum MV {
+    Unit,
+    /// bit pattern of the f64
+    Num(u64),
+    Str(String),
+    Array(Vec<MV>),
+    Tuple(Vec<MV>),
+    Record(Vec<(String, MV)>),
+    Tagged(u64, Box<MV>),
+    /// index into the expression pool
+    Code(usize),
+    // ---- variants that cannot cross the FFI boundary
+    ErrorV(usize),
+    Fixpoint(String, usize),
+    ExtFn(String),
+    Store(Box<MV>),
+    Closure(usize, Vec<String>, Vec<(String, MV)>),
+    Ctor(u64, String, MT),
+}
+
+#[derive(Clone, Debug, PartialEq)]
+pub enum MT {
+    /// 0 unit, 1 int, 2 numeric, 3 string
+    Prim(u8),
+    Array(Box<MT>),
+    Tuple(Vec<MT>),
+    Record(Vec<(String, MT, bool)>),
+    Func(Box<MT>, Box<MT>),
+    Ref(Box<MT>),
+    Code(Box<MT>),
+    Union(Vec<MT>),
+    UserSum(String, Vec<(String, Option<MT>)>),
+    Boxed(Box<MT>),
+    Alias(String),
+    Any,
+    Failure,
+    Unknown,
+    // ---- refused by the hand-written serde
+    IVar(u64, u64),
+    Scheme(u64),
+}
+
+fn mv_name(v: &MV) -> &'static str {
+    match v {
+        MV::Unit => "Unit",
+        MV::Num(_) => "Number",
+        MV::Str(_) => "String",
+        MV::Array(_) => "Array",
+        MV::Tuple(_) => "Tuple",
+        MV::Record(_) => "Record",
+        MV::Tagged(..) => "TaggedUnion",
+        MV::Code(_) => "Code",
+        MV::ErrorV(_) => "ErrorV",
+        MV::Fixpoint(..) => "Fixpoint",
+        MV::ExtFn(_) => "ExternalFn",
+        MV::Store(_) => "Store",
+        MV::Closure(..) => "Closure",
+        MV::Ctor(..) => "ConstructorFn",
+    }
+}
+fn mv_label(v: &MV) -> &'static str {
+    match v {
+        MV::Unit => "v:Unit",
+        MV::Num(_) => "v:Number",
+        MV::Str(_) => "v:String",
+        MV::Array(_) => "v:Array",
+        MV::Tuple(_) => "v:Tuple",
+        MV::Record(_) => "v:Record",
+        MV::Tagged(..) => "v:TaggedUnion",
+        MV::Code(_) => "v:Code",
+        MV::ErrorV(_) => "v:ErrorV",
+        MV::Fixpoint(..) => "v:Fixpoint",
+        MV::ExtFn(_) => "v:ExternalFn",
+        MV::Store(_) => "v:Store",
+        MV::Closure(..) => "v:Closure",
+        MV::Ctor(..) => "v:ConstructorFn",
+    }
+}
+fn mt_name(t: &MT) -> &'static str {
+    match t {
+        MT::Prim(_) => "Primitive",
+        MT::Array(_) => "Array",
+        MT::Tuple(_) => "Tuple",
+        MT::Record(_) => "Record",
+        MT::Func(..) => "Function",
+        MT::Ref(_) => "Ref",
+        MT::Code(_) => "Code",
+        MT::Union(_) => "Union",
+        MT::UserSum(..) => "UserSum",
+        MT::Boxed(_) => "Boxed",
+        MT::Alias(_) => "TypeAlias",
+        MT::Any => "Any",
+        MT::Failure => "Failure",
+        MT::Unknown => "Unknown",
+        MT::IVar(..) => "Intermediate",
+        MT::Scheme(_) => "TypeScheme",
+    }
+}
+fn mt_label(t: &MT) -> &'static str {
+    match t {
+        MT::Prim(_) => "t:Primitive",
+        MT::Array(_) => "t:Array",
+        MT::Tuple(_) => "t:Tuple",
+        MT::Record(_) => "t:Record",
+        MT::Func(..) => "t:Function",
+        MT::Ref(_) => "t:Ref",
+        MT::Code(_) => "t:Code",
+        MT::Union(_) => "t:Union",
+        MT::UserSum(..) => "t:UserSum",
+        MT::Boxed(_) => "t:Boxed",
+        MT::Alias(_) => "t:TypeAlias",
+        MT::Any => "t:Any",
+        MT::Failure => "t:Failure",
+        MT::Unknown => "t:Unknown",
+        MT::IVar(..) => "t:Intermediate",
+        MT::Scheme(_) => "t:TypeScheme",
+    }
+}
+
+/// is the variant itself one that may not cross the boundary (FFI encoding)?
+fn mv_is_bad(v: &MV) -> bool {
+    matches!(v, MV::ErrorV(_) | MV::Fixpoint(..) | MV::ExtFn(_) | MV::Store(_) | MV::Closure(..) | MV::Ctor(..))
+}
+
+// ---------------------------------------------------------------- expression pool
+
+const POOL_DESCR: [&str; 8] = ["int-literal 42 (no span)", "var x @3..4", "parsed `1.0+2.0`", "parsed `fn f(x){x*2.0}\\nf(1.0)`", "Expr::Error", "parsed `|x| x`", "tuple of pool[0], pool[1]", "parsed quote `(1.0)"];
+
+fn pool() -> &'static Vec<ExprNodeId> {
+    static P: OnceLock<Vec<ExprNodeId>> = OnceLock::new();
+    P.get_or_init(|| {
+        let lit = Expr::Literal(Literal::Int(42)).into_id_without_span();
+        let var = Expr::Var("x".to_symbol()).into_id(Location::new(3..4, "c20.mmm".into()));
+        let parse = |s: &str| parse_to_expr(s, None).0;
+        let tup = Expr::Tuple(vec![lit, var]).into_id_without_span();
+        vec![lit, var, parse("1.0+2.0"), parse("fn f(x){x*2.0}\nf(1.0)"), Expr::Error.into_id_without_span(), parse("|x| x"), tup, parse("`(1.0)")]
+    })
+}
+fn pool_get(i: usize) -> ExprNodeId {
+    let p = pool();
+    p[i % p.len()]
+}
+
+// ---------------------------------------------------------------- model -> repository data
+
+fn build(v: &MV) -> Value {
+    match v {
+        MV::Unit => Value::Unit,
+        MV::Num(b) => Value::Number(f64::from_bits(*b)),
+        MV::Str(s) => Value::String(s.to_symbol()),
+        MV::Array(xs) => Value::Array(xs.iter().map(build).collect()),
+        MV::Tuple(xs) => Value::Tuple(xs.iter().map(build).collect()),
+        MV::Record(fs) => Value::Record(fs.iter().map(|(k, x)| (k.to_symbol(), build(x))).collect()),
+        MV::Tagged(t, x) => Value::TaggedUnion(*t, Box::new(build(x))),
+        MV::Code(i) => Value::Code(pool_get(*i)),
+        MV::ErrorV(i) => Value::ErrorV(pool_get(*i)),
+        MV::Fixpoint(n, i) => Value::Fixpoint(n.to_symbol(), pool_get(*i)),
+        MV::ExtFn(n) => Value::ExternalFn(ExtFunction::new(n.to_symbol(), |_args: &[(Value, TypeNodeId)]| Value::Unit)),
+        MV::Store(x) => Value::Store(Rc::new(RefCell::new(build(x)))),
+        MV::Closure(i, names, env) => {
+            let mut e: Environment<(Value, EvalStage)> = Environment::new();
+            e.extend();
+            let binds: Vec<(Symbol, (Value, EvalStage))> = env.iter().map(|(k, x)| (k.to_symbol(), (build(x), EvalStage::Stage(0)))).collect();
+            e.add_bind(&binds);
+            Value::Closure(pool_get(*i), names.iter().map(|n| n.to_symbol()).collect(), e)
+        }
+        MV::Ctor(t, n, ty) => Value::ConstructorFn(*t, n.to_symbol(), build_type(ty).into_id()),
+    }
+}
+
+fn build_type(t: &MT) -> Type {
+    let id = |x: &MT| build_type(x).into_id();
+    match t {
+        MT::Prim(k) => Type::Primitive(match k % 4 {
+            0 => PType::Unit,
+            1 => PType::Int,
+            2 => PType::Numeric,
+            _ => PType::String,
+        }),
+        MT::Array(x) => Type::Array(id(x)),
+        MT::Tuple(xs) => Type::Tuple(xs.iter().map(id).collect()),
+        MT::Record(fs) => Type::Record(fs.iter().map(|(k, x, d)| RecordTypeField::new(k.to_symbol(), id(x), *d)).collect()),
+        MT::Func(a, r) => Type::Function { arg: id(a), ret: id(r) },
+        MT::Ref(x) => Type::Ref(id(x)),
+        MT::Code(x) => Type::Code(id(x)),
+        MT::Union(xs) => Type::Union(xs.iter().map(id).collect()),
+        MT::UserSum(n, vs) => Type::UserSum { name: n.to_symbol(), variants: vs.iter().map(|(k, x)| (k.to_symbol(), x.as_ref().map(id))).collect() },
+        MT::Boxed(x) => Type::Boxed(id(x)),
+        MT::Alias(s) => Type::TypeAlias(s.to_symbol()),
+        MT::Any => Type::Any,
+        MT::Failure => Type::Failure,
+        MT::Unknown => Type::Unknown,
+        MT::IVar(v, l) => Type::Intermediate(Arc::new(RwLock::new(TypeVar::new(IntermediateId(*v), *l)))),
+        MT::Scheme(n) => Type::TypeScheme(TypeSchemeId(*n)),
+    }
+}
+
+// ---------------------------------------------------------------- harness-side equality (model vs decoded data)
+
+pub struct Mismatch {
+    /// variant name of the model node at which the difference was found
+    variant: &'static str,
+    path: String,
+    what: String,
+}
+
+fn mm(variant: &'static str, path: &str, what: String) -> Mismatch {
+    Mismatch { variant, path: if path.is_empty() { "/".to_string() } else { path.to_string() }, what }
+}
+
+fn value_variant(v: &Value) -> &'static str {
+    match v {
+        Value::ErrorV(_) => "ErrorV",
+        Value::Unit => "Unit",
+        Value::Number(_) => "Number",
+        Value::String(_) => "String",
+        Value::Array(_) => "Array",
+        Value::Record(_) => "Record",
+        Value::Tuple(_) => "Tuple",
+        Value::Closure(..) => "Closure",
+        Value::Fixpoint(..) => "Fixpoint",
+        Value::Code(_) => "Code",
+        Value::ExternalFn(_) => "ExternalFn",
+        Value::Store(_) => "Store",
+        Value::TaggedUnion(..) => "TaggedUnion",
+        Value::ConstructorFn(..) => "ConstructorFn",
+    }
+}
+
+/// same expression: same interner key, or (key exists and) the same structural print
+fn same_expr(want: ExprNodeId, got: ExprNodeId) -> Result<(), String> {
+    if want.0 == got.0 {
+        return Ok(());
+    }
+    let valid = with_session_globals(|g| g.expr_storage.contains_key(got.0));
+    if !valid {
+        return Err(format!("decoded expression key {:?} does not exist in the interner (encoded {:?})", got.0, want.0));
+    }
+    let a = format!("{:?}", want.to_expr());
+    let b = format!("{:?}", got.to_expr());
+    if a == b { Ok(()) } else { Err(format!("decoded expression {b} differs from the encoded {a}")) }
+}
+
+/// `errorv_as_unit`: tolerate the known finding (ErrorV comes back as Unit) while still comparing the rest
+fn cmp_value(m: &MV, v: &Value, path: &mut String, errorv_as_unit: bool) -> Result<(), Mismatch> {
+    let name = mv_name(m);
+    let wrong = |path: &str| mm(name, path, format!("encoded {name}, decoded {}", value_variant(v)));
+    let plen = path.len();
+    macro_rules! sub {
+        ($seg:expr, $m:expr, $v:expr) => {{
+            let _ = write!(path, "/{}", $seg);
+            let r = cmp_value($m, $v, path, errorv_as_unit);
+            path.truncate(plen);
+            r?;
+        }};
+    }
+    match (m, v) {
+        (MV::Unit, Value::Unit) => Ok(()),
+        (MV::Num(b), Value::Number(n)) => {
+            if n.to_bits() == *b {
+                Ok(())
+            } else {
+                Err(mm(name, path, format!("number bits 0x{b:016x} ({:?}) decoded as 0x{:016x} ({n:?})", f64::from_bits(*b), n.to_bits())))
+            }
+        }
+        (MV::Str(s), Value::String(sym)) => {
+            let got = sym.as_str();
+            if got == s { Ok(()) } else { Err(mm(name, path, format!("string {s:?} decoded as {got:?}"))) }
+        }
+        (MV::Array(xs), Value::Array(ys)) | (MV::Tuple(xs), Value::Tuple(ys)) => {
+            if xs.len() != ys.len() {
+                return Err(mm(name, path, format!("{} elements encoded, {} decoded", xs.len(), ys.len())));
+            }
+            for (i, (x, y)) in xs.iter().zip(ys).enumerate() {
+                sub!(i, x, y);
+            }
+            Ok(())
+        }
+        (MV::Record(xs), Value::Record(ys)) => {
+            if xs.len() != ys.len() {
+                return Err(mm(name, path, format!("{} fields encoded, {} decoded", xs.len(), ys.len())));
+            }
+            for (i, ((k, x), (k2, y))) in xs.iter().zip(ys).enumerate() {
+                if k2.as_str() != k {
+                    return Err(mm(name, path, format!("field #{i} key {k:?} decoded as {:?}", k2.as_str())));
+                }
+                sub!(i, x, y);
+            }
+            Ok(())
+        }
+        (MV::Tagged(t, x), Value::TaggedUnion(t2, y)) => {
+            if t != t2 {
+                return Err(mm(name, path, format!("tag {t} decoded as {t2}")));
+            }
+            sub!("payload", x.as_ref(), y.as_ref());
+            Ok(())
+        }
+        (MV::Code(i), Value::Code(id)) | (MV::ErrorV(i), Value::ErrorV(id)) => same_expr(pool_get(*i), *id).map_err(|e| mm(name, path, e)),
+        (MV::ErrorV(_), Value::Unit) if errorv_as_unit => Ok(()),
+        (MV::Fixpoint(n, i), Value::Fixpoint(sym, id)) => {
+            if sym.as_str() != n {
+                return Err(mm(name, path, format!("fixpoint name {n:?} decoded as {:?}", sym.as_str())));
+            }
+            same_expr(pool_get(*i), *id).map_err(|e| mm(name, path, e))
+        }
+        (MV::Ctor(t, n, ty), Value::ConstructorFn(t2, sym, id)) => {
+            if t != t2 || sym.as_str() != n {
+                return Err(mm(name, path, format!("constructor ({t},{n:?}) decoded as ({t2},{:?})", sym.as_str())));
+            }
+            let _ = write!(path, "/type");
+            let r = cmp_type_id(ty, *id, path);
+            path.truncate(plen);
+            r
+        }
+        _ => Err(wrong(path)),
+    }
+}
+
+fn cmp_type_id(m: &MT, id: TypeNodeId, path: &mut String) -> Result<(), Mismatch> {
+    let valid = with_session_globals(|g| g.type_storage.contains_key(id.0));
+    if !valid {
+        return Err(mm(mt_name(m), path, format!("decoded type key {:?} does not exist in the interner", id.0)));
+    }
+    cmp_type(m, &id.to_type(), path)
+}
+
+fn type_variant(t: &Type) -> &'static str {
+    match t {
+        Type::Primitive(_) => "Primitive",
+        Type::Array(_) => "Array",
+        Type::Tuple(_) => "Tuple",
+        Type::Record(_) => "Record",
+        Type::Function { .. } => "Function",
+        Type::Ref(_) => "Ref",
+        Type::Code(_) => "Code",
+        Type::Union(_) => "Union",
+        Type::UserSum { .. } => "UserSum",
+        Type::Boxed(_) => "Boxed",
+        Type::Intermediate(_) => "Intermediate",
+        Type::TypeScheme(_) => "TypeScheme",
+        Type::TypeAlias(_) => "TypeAlias",
+        Type::Any => "Any",
+        Type::Failure => "Failure",
+        Type::Unknown => "Unknown",
+    }
+}
+
+/// structural comparison of a decoded `Type` against the model; locations are not looked at
+fn cmp_type(m: &MT, t: &Type, path: &mut String) -> Result<(), Mismatch> {
+    let name = mt_name(m);
+    let plen = path.len();
+    macro_rules! sub {
+        ($seg:expr, $m:expr, $id:expr) => {{
+            let _ = write!(path, "/{}", $seg);
+            let r = cmp_type_id($m, $id, path);
+            path.truncate(plen);
+            r?;
+        }};
+    }
+    match (m, t) {
+        (MT::Prim(k), Type::Primitive(p)) => {
+            let got = match p {
+                PType::Unit => 0,
+                PType::Int => 1,
+                PType::Numeric => 2,
+                PType::String => 3,
+            };
+            if got == k % 4 { Ok(()) } else { Err(mm(name, path, format!("primitive kind {} decoded as {p:?}", k % 4))) }
+        }
+        (MT::Array(x), Type::Array(id)) | (MT::Ref(x), Type::Ref(id)) | (MT::Code(x), Type::Code(id)) | (MT::Boxed(x), Type::Boxed(id)) => {
+            sub!("0", x.as_ref(), *id);
+            Ok(())
+        }
+        (MT::Tuple(xs), Type::Tuple(ids)) | (MT::Union(xs), Type::Union(ids)) => {
+            if xs.len() != ids.len() {
+                return Err(mm(name, path, format!("{} members encoded, {} decoded", xs.len(), ids.len())));
+            }
+            for (i, (x, id)) in xs.iter().zip(ids).enumerate() {
+                sub!(i, x, *id);
+            }
+            Ok(())
+        }
+        (MT::Record(fs), Type::Record(gs)) => {
+            if fs.len() != gs.len() {
+                return Err(mm(name, path, format!("{} fields encoded, {} decoded", fs.len(), gs.len())));
+            }
+            for (i, ((k, x, d), f)) in fs.iter().zip(gs).enumerate() {
+                if f.key.as_str() != k {
+                    return Err(mm(name, path, format!("field #{i} key {k:?} decoded as {:?}", f.key.as_str())));
+                }
+                if f.has_default != *d {
+                    return Err(mm(name, path, format!("field #{i} ({k:?}) has_default {d} decoded as {}", f.has_default)));
+                }
+                sub!(i, x, f.ty);
+            }
+            Ok(())
+        }
+        (MT::Func(a, r), Type::Function { arg, ret }) => {
+            sub!("arg", a.as_ref(), *arg);
+            sub!("ret", r.as_ref(), *ret);
+            Ok(())
+        }
+        (MT::UserSum(n, vs), Type::UserSum { name: n2, variants }) => {
+            if n2.as_str() != n {
+                return Err(mm(name, path, format!("sum type name {n:?} decoded as {:?}", n2.as_str())));
+            }
+            if vs.len() != variants.len() {
+                return Err(mm(name, path, format!("{} variants encoded, {} decoded", vs.len(), variants.len())));
+            }
+            for (i, ((k, x), (k2, y))) in vs.iter().zip(variants).enumerate() {
+                if k2.as_str() != k {
+                    return Err(mm(name, path, format!("variant #{i} name {k:?} decoded as {:?}", k2.as_str())));
+                }
+                match (x, y) {
+                    (None, None) => {}
+                    (Some(x), Some(id)) => sub!(i, x, *id),
+                    _ => return Err(mm(name, path, format!("variant #{i} ({k:?}) payload presence {} decoded as {}", x.is_some(), y.is_some()))),
+                }
+            }
+            Ok(())
+        }
+        (MT::Alias(s), Type::TypeAlias(sym)) => {
+            if sym.as_str() == s { Ok(()) } else { Err(mm(name, path, format!("alias {s:?} decoded as {:?}", sym.as_str()))) }
+        }
+        (MT::Any, Type::Any) | (MT::Failure, Type::Failure) | (MT::Unknown, Type::Unknown) => Ok(()),
+        (MT::IVar(v, l), Type::Intermediate(cell)) => {
+            let tv = cell.read().unwrap();
+            if tv.var.0 == *v && tv.level == *l { Ok(()) } else { Err(mm(name, path, format!("type variable ({v},{l}) decoded as ({},{})", tv.var.0, tv.level))) }
+        }
+        (MT::Scheme(n), Type::TypeScheme(id)) => {
+            if id.0 == *n { Ok(()) } else { Err(mm(name, path, format!("type scheme {n} decoded as {}", id.0))) }
+        }
+        _ => Err(mm(name, path, format!("encoded {name}, decoded {}", type_variant(t)))),
+    }
+}
+
+// ---------------------------------------------------------------- case statistics, rendering
+
+#[derive(Default)]
+struct Info {
+    depth: usize,
+    nodes: usize,
+    labels: Vec<&'static str>,
+    edge: bool,
+    /// non-transportable nodes reachable from the root through transportable nodes only (pre-order): (variant, depth)
+    bad: Vec<(&'static str, usize)>,
+}
+
+fn is_edge_bits(b: u64) -> Option<&'static str> {
+    let f = f64::from_bits(b);
+    if f.is_nan() {
+        Some("edge:nan")
+    } else if f.is_infinite() {
+        Some("edge:inf")
+    } else if b == 0x8000_0000_0000_0000 {
+        Some("edge:neg-zero")
+    } else if f != 0.0 && f.is_subnormal() {
+        Some("edge:subnormal")
+    } else if f.abs() >= 1e300 || (f != 0.0 && f.abs() <= 1e-300) {
+        Some("edge:magnitude")
+    } else {
+        None
+    }
+}
+
+fn str_labels(s: &str, info: &mut Info) {
+    if s.is_empty() {
+        info.labels.push("empty-string");
+        info.edge = true;
+    }
+    if !s.is_ascii() {
+        info.labels.push("non-ascii");
+        info.edge = true;
+    }
+    if s.contains('\0') {
+        info.labels.push("nul-in-string");
+        info.edge = true;
+    }
+    if s.len() >= 256 {
+        info.labels.push("long-string");
+        info.edge = true;
+    }
+}
+
+fn walk_v(v: &MV, depth: usize, in_bad: bool, info: &mut Info) {
+    info.nodes += 1;
+    info.depth = info.depth.max(depth);
+    info.labels.push(mv_label(v));
+    let bad = mv_is_bad(v);
+    if bad && !in_bad {
+        info.bad.push((mv_name(v), depth));
+    }
+    let inb = in_bad || bad;
+    match v {
+        MV::Num(b) => {
+            if let Some(l) = is_edge_bits(*b) {
+                info.labels.push(l);
+                info.edge = true;
+            }
+        }
+        MV::Str(s) => str_labels(s, info),
+        MV::Array(xs) | MV::Tuple(xs) => {
+            if xs.is_empty() {
+                info.labels.push("empty-aggregate");
+            }
+            for x in xs {
+                walk_v(x, depth + 1, inb, info);
+            }
+        }
+        MV::Record(fs) => {
+            if fs.is_empty() {
+                info.labels.push("empty-aggregate");
+            }
+            for (i, (k, x)) in fs.iter().enumerate() {
+                str_labels(k, info);
+                if fs[..i].iter().any(|(k2, _)| k2 == k) {
+                    info.labels.push("duplicate-keys");
+                }
+                walk_v(x, depth + 1, inb, info);
+            }
+        }
+        MV::Tagged(t, x) => {
+            if *t > u32::MAX as u64 {
+                info.labels.push("edge:big-tag");
+            }
+            walk_v(x, depth + 1, inb, info);
+        }
+        MV::Store(x) => walk_v(x, depth + 1, inb, info),
+        MV::Closure(_, _, env) => {
+            for (_, x) in env {
+                walk_v(x, depth + 1, inb, info);
+            }
+        }
+        MV::Ctor(_, _, t) => walk_t(t, depth + 1, info),
+        _ => {}
+    }
+}
+
+fn walk_t(t: &MT, depth: usize, info: &mut Info) {
+    info.nodes += 1;
+    info.depth = info.depth.max(depth);
+    info.labels.push(mt_label(t));
+    match t {
+        MT::Array(x) | MT::Ref(x) | MT::Code(x) | MT::Boxed(x) => walk_t(x, depth + 1, info),
+        MT::Tuple(xs) | MT::Union(xs) => {
+            if xs.is_empty() {
+                info.labels.push("empty-aggregate");
+            }
+            for x in xs {
+                walk_t(x, depth + 1, info);
+            }
+        }
+        MT::Record(fs) => {
+            if fs.is_empty() {
+                info.labels.push("empty-aggregate");
+            }
+            for (k, x, d) in fs {
+                str_labels(k, info);
+                if *d {
+                    info.labels.push("t:has-default");
+                }
+                walk_t(x, depth + 1, info);
+            }
+        }
+        MT::Func(a, r) => {
+            walk_t(a, depth + 1, info);
+            walk_t(r, depth + 1, info);
+        }
+        MT::UserSum(n, vs) => {
+            str_labels(n, info);
+            if vs.is_empty() {
+                info.labels.push("empty-aggregate");
+            }
+            for (k, x) in vs {
+                str_labels(k, info);
+                match x {
+                    Some(x) => {
+                        info.labels.push("t:UserSum-payload");
+                        walk_t(x, depth + 1, info);
+                    }
+                    None => info.labels.push("t:UserSum-bare"),
+                }
+            }
+        }
+        MT::Alias(s) => str_labels(s, info),
+        _ => {}
+    }
+}
+
+fn finish_labels(info: &mut Info) -> Vec<String> {
+    info.labels.sort_unstable();
+    info.labels.dedup();
+    info.labels.iter().map(|s| s.to_string()).collect()
+}
+
+/// injective compact rendering (used for the distinctness hash)
+fn show_v(v: &MV, o: &mut String) {
+    match v {
+        MV::Unit => o.push('U'),
+        MV::Num(b) => {
+            let _ = write!(o, "N{b:x}");
+        }
+        MV::Str(s) => {
+            let _ = write!(o, "S{}:{s}", s.len());
+        }
+        MV::Array(xs) | MV::Tuple(xs) => {
+            o.push(if matches!(v, MV::Array(_)) { 'A' } else { 'T' });
+            let _ = write!(o, "{}[", xs.len());
+            for x in xs {
+                show_v(x, o);
+            }
+            o.push(']');
+        }
+        MV::Record(fs) => {
+            let _ = write!(o, "R{}[", fs.len());
+            for (k, x) in fs {
+                let _ = write!(o, "{}:{k}=", k.len());
+                show_v(x, o);
+            }
+            o.push(']');
+        }
+        MV::Tagged(t, x) => {
+            let _ = write!(o, "G{t}(");
+            show_v(x, o);
+            o.push(')');
+        }
+        MV::Code(i) => {
+            let _ = write!(o, "C{i}");
+        }
+        MV::ErrorV(i) => {
+            let _ = write!(o, "E{i}");
+        }
+        MV::Fixpoint(n, i) => {
+            let _ = write!(o, "F{}:{n}{i}", n.len());
+        }
+        MV::ExtFn(n) => {
+            let _ = write!(o, "X{}:{n}", n.len());
+        }
+        MV::Store(x) => {
+            o.push_str("M(");
+            show_v(x, o);
+            o.push(')');
+        }
+        MV::Closure(i, names, env) => {
+            let _ = write!(o, "L{i}<");
+            for n in names {
+                let _ = write!(o, "{}:{n}", n.len());
+            }
+            o.push('>');
+            for (k, x) in env {
+                let _ = write!(o, "{}:{k}=", k.len());
+                show_v(x, o);
+            }
+            o.push(';');
+        }
+        MV::Ctor(t, n, ty) => {
+            let _ = write!(o, "K{t},{}:{n}", n.len());
+            show_t(ty, o);
+        }
+    }
+}
+
+fn show_t(t: &MT, o: &mut String) {
+    match t {
+        MT::Prim(k) => {
+            let _ = write!(o, "p{}", k % 4);
+        }
+        MT::Array(x) | MT::Ref(x) | MT::Code(x) | MT::Boxed(x) => {
+            o.push(match t {
+                MT::Array(_) => 'a',
+                MT::Ref(_) => 'r',
+                MT::Code(_) => 'c',
+                _ => 'b',
+            });
+            show_t(x, o);
+        }
+        MT::Tuple(xs) | MT::Union(xs) => {
+            o.push(if matches!(t, MT::Tuple(_)) { 't' } else { 'u' });
+            let _ = write!(o, "{}[", xs.len());
+            for x in xs {
+                show_t(x, o);
+            }
+            o.push(']');
+        }
+        MT::Record(fs) => {
+            let _ = write!(o, "e{}[", fs.len());
+            for (k, x, d) in fs {
+                let _ = write!(o, "{}:{k}{}", k.len(), if *d { '?' } else { '=' });
+                show_t(x, o);
+            }
+            o.push(']');
+        }
+        MT::Func(a, r) => {
+            o.push('f');
+            show_t(a, o);
+            show_t(r, o);
+        }
+        MT::UserSum(n, vs) => {
+            let _ = write!(o, "s{}:{n}{}[", n.len(), vs.len());
+            for (k, x) in vs {
+                let _ = write!(o, "{}:{k}", k.len());
+                match x {
+                    Some(x) => {
+                        o.push('+');
+                        show_t(x, o);
+                    }
+                    None => o.push('-'),
+                }
+            }
+            o.push(']');
+        }
+        MT::Alias(s) => {
+            let _ = write!(o, "l{}:{s}", s.len());
+        }
+        MT::Any => o.push('y'),
+        MT::Failure => o.push('x'),
+        MT::Unknown => o.push('k'),
+        MT::IVar(v, l) => {
+            let _ = write!(o, "i{v},{l};");
+        }
+        MT::Scheme(n) => {
+            let _ = write!(o, "m{n};");
+        }
+    }
+}
+
+// ---------------------------------------------------------------- JSON form of the model (render / direct replay)
+
+fn v_json(v: &MV) -> J {
+    match v {
+        MV::Unit => json!("unit"),
+        MV::Num(b) => json!({"num": format!("0x{b:016x}"), "f64": format!("{:?}", f64::from_bits(*b))}),
+        MV::Str(s) => json!({"str": s}),
+        MV::Array(xs) => json!({"arr": xs.iter().map(v_json).collect::<Vec<_>>()}),
+        MV::Tuple(xs) => json!({"tup": xs.iter().map(v_json).collect::<Vec<_>>()}),
+        MV::Record(fs) => json!({"rec": fs.iter().map(|(k, x)| json!([k, v_json(x)])).collect::<Vec<_>>()}),
+        MV::Tagged(t, x) => json!({"tagged": [t, v_json(x)]}),
+        MV::Code(i) => json!({"code": i, "expr": POOL_DESCR[i % POOL_DESCR.len()]}),
+        MV::ErrorV(i) => json!({"errorv": i}),
+        MV::Fixpoint(n, i) => json!({"fixpoint": [n, i]}),
+        MV::ExtFn(n) => json!({"extfn": n}),
+        MV::Store(x) => json!({"store": v_json(x)}),
+        MV::Closure(i, names, env) => json!({"closure": [i, names, env.iter().map(|(k, x)| json!([k, v_json(x)])).collect::<Vec<_>>()]}),
+        MV::Ctor(t, n, ty) => json!({"ctor": [t, n, t_json(ty)]}),
+    }
+}
+
+fn t_json(t: &MT) -> J {
+    match t {
+        MT::Prim(k) => json!(["unit", "int", "num", "string"][(*k % 4) as usize]),
+        MT::Array(x) => json!({"array": t_json(x)}),
+        MT::Ref(x) => json!({"ref": t_json(x)}),
+        MT::Code(x) => json!({"code": t_json(x)}),
+        MT::Boxed(x) => json!({"boxed": t_json(x)}),
+        MT::Tuple(xs) => json!({"tuple": xs.iter().map(t_json).collect::<Vec<_>>()}),
+        MT::Union(xs) => json!({"union": xs.iter().map(t_json).collect::<Vec<_>>()}),
+        MT::Record(fs) => json!({"record": fs.iter().map(|(k, x, d)| json!([k, t_json(x), d])).collect::<Vec<_>>()}),
+        MT::Func(a, r) => json!({"fn": [t_json(a), t_json(r)]}),
+        MT::UserSum(n, vs) => json!({"usersum": [n, vs.iter().map(|(k, x)| json!([k, x.as_ref().map(t_json)])).collect::<Vec<_>>()]}),
+        MT::Alias(s) => json!({"alias": s}),
+        MT::Any => json!("any"),
+        MT::Failure => json!("failure"),
+        MT::Unknown => json!("unknown"),
+        MT::IVar(v, l) => json!({"ivar": [v, l]}),
+        MT::Scheme(n) => json!({"scheme": n}),
+    }
+}
+
+fn v_parse(j: &J) -> Option<MV> {
+    if let Some(s) = j.as_str() {
+        return if s == "unit" { Some(MV::Unit) } else { None };
+    }
+    let o = j.as_object()?;
+    let list = |x: &J| -> Option<Vec<MV>> { x.as_array()?.iter().map(v_parse).collect() };
+    let pairs = |x: &J| -> Option<Vec<(String, MV)>> { x.as_array()?.iter().map(|p| Some((p.get(0)?.as_str()?.to_string(), v_parse(p.get(1)?)?))).collect() };
+    if let Some(x) = o.get("num") {
+        let s = x.as_str()?;
+        return Some(MV::Num(u64::from_str_radix(s.trim_start_matches("0x"), 16).ok()?));
+    }
+    if let Some(x) = o.get("str") {
+        return Some(MV::Str(x.as_str()?.to_string()));
+    }
+    if let Some(x) = o.get("arr") {
+        return Some(MV::Array(list(x)?));
+    }
+    if let Some(x) = o.get("tup") {
+        return Some(MV::Tuple(list(x)?));
+    }
+    if let Some(x) = o.get("rec") {
+        return Some(MV::Record(pairs(x)?));
+    }
+    if let Some(x) = o.get("tagged") {
+        return Some(MV::Tagged(x.get(0)?.as_u64()?, Box::new(v_parse(x.get(1)?)?)));
+    }
+    if let Some(x) = o.get("code") {
+        return Some(MV::Code(x.as_u64()? as usize));
+    }
+    if let Some(x) = o.get("errorv") {
+        return Some(MV::ErrorV(x.as_u64()? as usize));
+    }
+    if let Some(x) = o.get("fixpoint") {
+        return Some(MV::Fixpoint(x.get(0)?.as_str()?.to_string(), x.get(1)?.as_u64()? as usize));
+    }
+    if let Some(x) = o.get("extfn") {
+        return Some(MV::ExtFn(x.as_str()?.to_string()));
+    }
+    if let Some(x) = o.get("store") {
+        return Some(MV::Store(Box::new(v_parse(x)?)));
+    }
+    if let Some(x) = o.get("closure") {
+        let names: Option<Vec<String>> = x.get(1)?.as_array()?.iter().map(|n| n.as_str().map(|s| s.to_string())).collect();
+        return Some(MV::Closure(x.get(0)?.as_u64()? as usize, names?, pairs(x.get(2)?)?));
+    }
+    if let Some(x) = o.get("ctor") {
+        return Some(MV::Ctor(x.get(0)?.as_u64()?, x.get(1)?.as_str()?.to_string(), t_parse(x.get(2)?)?));
+    }
+    None
+}
+
+fn t_parse(j: &J) -> Option<MT> {
+    if let Some(s) = j.as_str() {
+        return match s {
+            "unit" => Some(MT::Prim(0)),
+            "int" => Some(MT::Prim(1)),
+            "num" => Some(MT::Prim(2)),
+            "string" => Some(MT::Prim(3)),
+            "any" => Some(MT::Any),
+            "failure" => Some(MT::Failure),
+            "unknown" => Some(MT::Unknown),
+            _ => None,
+        };
+    }
+    let o = j.as_object()?;
+    let list = |x: &J| -> Option<Vec<MT>> { x.as_array()?.iter().map(t_parse).collect() };
+    let bx = |x: &J| -> Option<Box<MT>> { Some(Box::new(t_parse(x)?)) };
+    if let Some(x) = o.get("array") {
+        return Some(MT::Array(bx(x)?));
+    }
+    if let Some(x) = o.get("ref") {
+        return Some(MT::Ref(bx(x)?));
+    }
+    if let Some(x) = o.get("code") {
+        return Some(MT::Code(bx(x)?));
+    }
+    if let Some(x) = o.get("boxed") {
+        return Some(MT::Boxed(bx(x)?));
+    }
+    if let Some(x) = o.get("tuple") {
+        return Some(MT::Tuple(list(x)?));
+    }
+    if let Some(x) = o.get("union") {
+        return Some(MT::Union(list(x)?));
+    }
+    if let Some(x) = o.get("record") {
+        let fs: Option<Vec<(String, MT, bool)>> = x.as_array()?.iter().map(|f| Some((f.get(0)?.as_str()?.to_string(), t_parse(f.get(1)?)?, f.get(2)?.as_bool()?))).collect();
+        return Some(MT::Record(fs?));
+    }
+    if let Some(x) = o.get("fn") {
+        return Some(MT::Func(bx(x.get(0)?)?, bx(x.get(1)?)?));
+    }
+    if let Some(x) = o.get("usersum") {
+        let vs: Option<Vec<(String, Option<MT>)>> = x
+            .get(1)?
+            .as_array()?
+            .iter()
+            .map(|f| {
+                let p = f.get(1)?;
+                let payload = if p.is_null() { None } else { Some(t_parse(p)?) };
+                Some((f.get(0)?.as_str()?.to_string(), payload))
+            })
+            .collect();
+        return Some(MT::UserSum(x.get(0)?.as_str()?.to_string(), vs?));
+    }
+    if let Some(x) = o.get("alias") {
+        return Some(MT::Alias(x.as_str()?.to_string()));
+    }
+    if let Some(x) = o.get("ivar") {
+        return Some(MT::IVar(x.get(0)?.as_u64()?, x.get(1)?.as_u64()?));
+    }
+    if let Some(x) = o.get("scheme") {
+        return Some(MT::Scheme(x.as_u64()?));
+    }
+    None
+}
+
+// ---------------------------------------------------------------- the oracles
+
+#[derive(Default)]
+struct Verdict {
+    fail: Option<(String, String)>,
+    enc_len: Option<usize>,
+    /// the case ran into the tolerated known finding
+    known_errorv: bool,
+    /// the encoder refused the case (as it must)
+    refused: bool,
+    extra: Vec<&'static str>,
+}
+
+fn vfail(v: &mut Verdict, sig: String, msg: String) {
+    if v.fail.is_none() {
+        v.fail = Some((sig, msg));
+    }
+}
+
+fn mismatch_sig(kind: &str, m: &Mismatch) -> (String, String) {
+    (format!("c20:{kind}:{}", m.variant), format!("at {}: {}", m.path, m.what))
+}
+
+/// FFI encoding of a single value: `to_ffi_value`/`to_value` and `serialize_value`/`deserialize_value`.
+fn check_value(mv: &MV, info: &Info, tolerate_errorv: bool) -> Verdict {
+    let mut out = Verdict::default();
+    let v = build(mv);
+    let root = mv_name(mv);
+    let ffi = match panics::catch(|| v.to_ffi_value()) {
+        Ok(r) => r,
+        Err(p) => {
+            vfail(&mut out, "c20:encode-panic".into(), format!("to_ffi_value: {}", p.describe()));
+            return out;
+        }
+    };
+    let enc = match panics::catch(|| serialize_value(&v)) {
+        Ok(r) => r,
+        Err(p) => {
+            vfail(&mut out, "c20:encode-panic".into(), format!("serialize_value: {}", p.describe()));
+            return out;
+        }
+    };
+    out.enc_len = enc.as_ref().ok().map(|b| b.len());
+    let mut errorv_as_unit = false;
+    if !info.bad.is_empty() {
+        if ffi.is_err() && enc.is_err() {
+            out.refused = true;
+            return out;
+        }
+        let who = match (ffi.is_ok(), enc.is_ok()) {
+            (true, true) => "to_ffi_value and serialize_value both return Ok",
+            (true, false) => "to_ffi_value returns Ok (serialize_value refuses)",
+            _ => "serialize_value returns Ok (to_ffi_value refuses)",
+        };
+        if let Some((b, d)) = info.bad.iter().find(|(b, _)| *b != "ErrorV") {
+            vfail(&mut out, format!("c20:refused-value-accepted:{b}"), format!("the value contains a {b} at depth {d}, yet {who}"));
+            return out;
+        }
+        // only ErrorV nodes: held if they arrive intact, otherwise they were silently altered
+        let intact = match (&ffi, &enc) {
+            (Ok(f), Ok(bytes)) => {
+                let a = panics::catch(|| f.clone().to_value()).ok().map(|v2| cmp_value(mv, &v2, &mut String::new(), false).is_ok()).unwrap_or(false);
+                let b = panics::catch(|| deserialize_value(bytes)).ok().and_then(|r| r.ok()).map(|v2| cmp_value(mv, &v2, &mut String::new(), false).is_ok()).unwrap_or(false);
+                a && b
+            }
+            _ => false,
+        };
+        if intact {
+            out.extra.push("errorv-crossed-intact");
+            return out;
+        }
+        if !tolerate_errorv {
+            let d = info.bad[0].1;
+            vfail(
+                &mut out,
+                "c20:refused-value-accepted:ErrorV".into(),
+                format!("the value contains Value::ErrorV at depth {d}; {who} and the ErrorV node does not come back as ErrorV (FfiValue::ErrorV decodes to Value::Unit): neither refused nor preserved"),
+            );
+            return out;
+        }
+        out.known_errorv = true;
+        errorv_as_unit = true;
+    }
+    // transportable (or tolerated): both encoders must accept
+    let ffi = match ffi {
+        Ok(f) => f,
+        Err(e) => {
+            vfail(&mut out, format!("c20:transportable-value-refused:{root}"), format!("to_ffi_value refused a value made of transportable variants only: {e}"));
+            return out;
+        }
+    };
+    let bytes = match enc {
+        Ok(b) => b,
+        Err(e) => {
+            vfail(&mut out, format!("c20:transportable-value-refused:{root}"), format!("serialize_value refused a value made of transportable variants only: {e}"));
+            return out;
+        }
+    };
+    match panics::catch(|| ffi.to_value()) {
+        Err(p) => vfail(&mut out, "c20:decode-panic".into(), format!("FfiValue::to_value: {}", p.describe())),
+        Ok(v2) => {
+            if let Err(m) = cmp_value(mv, &v2, &mut String::new(), errorv_as_unit) {
+                let (s, msg) = mismatch_sig("value-roundtrip-mismatch", &m);
+                vfail(&mut out, s, format!("to_ffi_value().to_value(): {msg}"));
+            }
+        }
+    }
+    match panics::catch(|| deserialize_value(&bytes)) {
+        Err(p) => vfail(&mut out, "c20:decode-panic".into(), format!("deserialize_value on a valid encoding: {}", p.describe())),
+        Ok(Err(e)) => vfail(&mut out, format!("c20:valid-encoding-rejected:{root}"), format!("deserialize_value rejects the output of serialize_value: {e}")),
+        Ok(Ok(v2)) => {
+            if let Err(m) = cmp_value(mv, &v2, &mut String::new(), errorv_as_unit) {
+                let (s, msg) = mismatch_sig("value-roundtrip-mismatch", &m);
+                vfail(&mut out, s, format!("deserialize_value(serialize_value(v)): {msg}"));
+            }
+        }
+    }
+    out
+}
+
+/// macro argument lists through `serialize_macro_args` / `deserialize_macro_args`
+fn check_args(args: &[(MV, MT)], infos: &[Info], tolerate_errorv: bool) -> Verdict {
+    let mut out = Verdict::default();
+    let built: Vec<(Value, TypeNodeId)> = args.iter().map(|(v, t)| (build(v), build_type(t).into_id())).collect();
+    let enc = match panics::catch(|| serialize_macro_args(&built)) {
+        Ok(r) => r,
+        Err(p) => {
+            vfail(&mut out, "c20:encode-panic".into(), format!("serialize_macro_args: {}", p.describe()));
+            return out;
+        }
+    };
+    out.enc_len = enc.as_ref().ok().map(|b| b.len());
+    let mut errorv_as_unit = false;
+    let bad: Vec<(usize, &'static str, usize)> = infos.iter().enumerate().flat_map(|(i, inf)| inf.bad.iter().map(move |(b, d)| (i, *b, *d))).collect();
+    if !bad.is_empty() {
+        if enc.is_err() {
+            out.refused = true;
+            return out;
+        }
+        if let Some((i, b, d)) = bad.iter().find(|(_, b, _)| *b != "ErrorV") {
+            vfail(&mut out, format!("c20:refused-value-accepted:{b}"), format!("argument #{i} contains a {b} at depth {d}, yet serialize_macro_args returns Ok"));
+            return out;
+        }
+        let intact = enc.as_ref().ok().and_then(|bytes| panics::catch(|| deserialize_macro_args(bytes)).ok()).and_then(|r| r.ok()).map(|dec| dec.len() == args.len() && args.iter().zip(&dec).all(|((m, _), (v2, _))| cmp_value(m, v2, &mut String::new(), false).is_ok())).unwrap_or(false);
+        if intact {
+            out.extra.push("errorv-crossed-intact");
+        } else if !tolerate_errorv {
+            let (i, _, d) = bad[0];
+            vfail(&mut out, "c20:refused-value-accepted:ErrorV".into(), format!("argument #{i} contains Value::ErrorV at depth {d}; serialize_macro_args returns Ok and the node does not come back as ErrorV (decodes to Value::Unit)"));
+            return out;
+        } else {
+            out.known_errorv = true;
+            errorv_as_unit = true;
+        }
+    }
+    let bytes = match enc {
+        Ok(b) => b,
+        Err(e) => {
+            let root = args.first().map(|(v, _)| mv_name(v)).unwrap_or("Empty");
+            vfail(&mut out, format!("c20:transportable-value-refused:{root}"), format!("serialize_macro_args refused arguments made of transportable variants only: {e}"));
+            return out;
+        }
+    };
+    match panics::catch(|| deserialize_macro_args(&bytes)) {
+        Err(p) => vfail(&mut out, "c20:decode-panic".into(), format!("deserialize_macro_args on a valid encoding: {}", p.describe())),
+        Ok(Err(e)) => vfail(&mut out, "c20:valid-encoding-rejected:Args".into(), format!("deserialize_macro_args rejects the output of serialize_macro_args: {e}")),
+        Ok(Ok(dec)) => {
+            if dec.len() != args.len() {
+                vfail(&mut out, "c20:args-roundtrip-mismatch:length".into(), format!("{} arguments encoded, {} decoded", args.len(), dec.len()));
+                return out;
+            }
+            for (i, ((m, t), (v2, id))) in args.iter().zip(&dec).enumerate() {
+                if let Err(mi) = cmp_value(m, v2, &mut format!("#{i}"), errorv_as_unit) {
+                    let (s, msg) = mismatch_sig("value-roundtrip-mismatch", &mi);
+                    vfail(&mut out, s, format!("macro argument value: {msg}"));
+                }
+                if let Err(mi) = cmp_type_id(t, *id, &mut format!("#{i}")) {
+                    let (s, msg) = mismatch_sig("type-roundtrip-mismatch", &mi);
+                    vfail(&mut out, s, format!("macro argument type: {msg}"));
+                }
+            }
+        }
+    }
+    out
+}
+
+// ---- positional transcoding of serde_json output (imitates a non-self-describing format)
+
+/// `{"0": x}` -> `x`, `{"0":a,"1":b,..}` -> `[a,b,..]`, anything else unchanged
+fn unwrap_fields(j: &J) -> J {
+    if let J::Object(m) = j {
+        let n = m.len();
+        if n > 0 && (0..n).all(|i| m.contains_key(&i.to_string())) {
+            if n == 1 {
+                return m["0"].clone();
+            }
+            return J::Array((0..n).map(|i| m[&i.to_string()].clone()).collect());
+        }
+    }
+    j.clone()
+}
+
+fn transcode_type(j: &J, lower: bool) -> J {
+    let key = |k: &str| if lower { k.to_lowercase() } else { k.to_string() };
+    match j {
+        J::String(s) => J::String(key(s)),
+        J::Object(m) if m.len() == 1 => {
+            let (k, v) = m.iter().next().unwrap();
+            let mut o = Map::new();
+            o.insert(key(k), unwrap_fields(v));
+            J::Object(o)
+        }
+        _ => j.clone(),
+    }
+}
+
+fn transcode_value(j: &J) -> J {
+    match j {
+        J::Object(m) if m.len() == 1 => {
+            let (k, v) = m.iter().next().unwrap();
+            let x = unwrap_fields(v);
+            let inner = match (k.as_str(), &x) {
+                ("Array" | "Tuple", J::Array(xs)) => J::Array(xs.iter().map(transcode_value).collect()),
+                ("Record", J::Array(xs)) => J::Array(
+                    xs.iter()
+                        .map(|p| match p {
+                            J::Array(kv) if kv.len() == 2 => J::Array(vec![kv[0].clone(), transcode_value(&kv[1])]),
+                            o => o.clone(),
+                        })
+                        .collect(),
+                ),
+                ("TaggedUnion", J::Array(tv)) if tv.len() == 2 => J::Array(vec![tv[0].clone(), transcode_value(&tv[1])]),
+                _ => x,
+            };
+            let mut o = Map::new();
+            o.insert(k.clone(), inner);
+            J::Object(o)
+        }
+        _ => j.clone(),
+    }
+}
+
+/// A type: (a) its `TypeNodeId` through the real FFI encoding, (b) the hand-written `Type` serde
+/// through serde_json + positional transcoding.
+fn check_type(mt: &MT) -> Verdict {
+    let mut out = Verdict::default();
+    let name = mt_name(mt);
+    let ty = build_type(mt);
+    let id = ty.clone().into_id();
+    // (a)
+    let args = vec![(Value::Unit, id)];
+    match panics::catch(|| serialize_macro_args(&args)) {
+        Err(p) => vfail(&mut out, "c20:encode-panic".into(), format!("serialize_macro_args: {}", p.describe())),
+        Ok(Err(e)) => vfail(&mut out, format!("c20:transportable-type-refused:{name}"), format!("serialize_macro_args refuses the type id: {e}")),
+        Ok(Ok(bytes)) => {
+            out.enc_len = Some(bytes.len());
+            match panics::catch(|| deserialize_macro_args(&bytes)) {
+                Err(p) => vfail(&mut out, "c20:decode-panic".into(), format!("deserialize_macro_args on a valid encoding: {}", p.describe())),
+                Ok(Err(e)) => vfail(&mut out, format!("c20:valid-type-encoding-rejected:{name}"), format!("deserialize_macro_args rejects its own output: {e}")),
+                Ok(Ok(dec)) => {
+                    if dec.len() != 1 {
+                        vfail(&mut out, "c20:args-roundtrip-mismatch:length".into(), format!("1 argument encoded, {} decoded", dec.len()));
+                    } else if let Err(m) = cmp_type_id(mt, dec[0].1, &mut String::new()) {
+                        let (s, msg) = mismatch_sig("type-roundtrip-mismatch", &m);
+                        vfail(&mut out, s, format!("TypeNodeId through serialize_macro_args: {msg}"));
+                    }
+                }
+            }
+        }
+    }
+    if out.fail.is_some() {
+        return out;
+    }
+    // (b)
+    let refused_root = matches!(mt, MT::IVar(..) | MT::Scheme(_));
+    match panics::catch(|| serde_json::to_value(&ty)) {
+        Err(p) => vfail(&mut out, "c20:encode-panic".into(), format!("Type::serialize: {}", p.describe())),
+        Ok(Err(e)) => {
+            if refused_root {
+                out.refused = true;
+            } else {
+                vfail(&mut out, format!("c20:transportable-type-refused:{name}"), format!("the hand-written Serialize refuses a {name}: {e}"));
+            }
+        }
+        Ok(Ok(j)) => {
+            if refused_root {
+                vfail(&mut out, format!("c20:refused-type-accepted:{name}"), format!("the hand-written Serialize accepts a {name} (documented as not serialisable): {j}"));
+                return out;
+            }
+            let mut last_err = String::new();
+            let mut decoded = None;
+            for lower in [true, false] {
+                let j2 = transcode_type(&j, lower);
+                match panics::catch(|| serde_json::from_value::<Type>(j2.clone())) {
+                    Err(p) => {
+                        vfail(&mut out, "c20:decode-panic".into(), format!("Type::deserialize: {}", p.describe()));
+                        return out;
+                    }
+                    Ok(Ok(t2)) => {
+                        decoded = Some(t2);
+                        break;
+                    }
+                    Ok(Err(e)) => last_err = format!("{e} (input {j2})"),
+                }
+            }
+            match decoded {
+                None => vfail(&mut out, format!("c20:valid-type-encoding-rejected:{name}"), format!("the hand-written Deserialize rejects the (positionally transcoded) output of Serialize {j}: {last_err}")),
+                Some(t2) => {
+                    if let Err(m) = cmp_type(mt, &t2, &mut String::new()) {
+                        let (s, msg) = mismatch_sig("type-roundtrip-mismatch", &m);
+                        vfail(&mut out, s, format!("hand-written Type serde (serde_json, positional transcoding): {msg}"));
+                    }
+                }
+            }
+        }
+    }
+    out
+}
+
+/// variants the hand-written `Value` serde refuses
+fn hand_bad(v: &MV, depth: usize, out: &mut Vec<(&'static str, usize)>) {
+    match v {
+        MV::Closure(..) | MV::ExtFn(_) | MV::Store(_) => out.push((mv_name(v), depth)),
+        MV::Array(xs) | MV::Tuple(xs) => xs.iter().for_each(|x| hand_bad(x, depth + 1, out)),
+        MV::Record(fs) => fs.iter().for_each(|(_, x)| hand_bad(x, depth + 1, out)),
+        MV::Tagged(_, x) => hand_bad(x, depth + 1, out),
+        _ => {}
+    }
+}
+
+/// hand-written `Value` serde (interpreter/serde_impl.rs) through serde_json + positional transcoding
+fn check_hand_value(mv: &MV) -> Verdict {
+    let mut out = Verdict::default();
+    let root = mv_name(mv);
+    let v = build(mv);
+    let mut bad = vec![];
+    hand_bad(mv, 1, &mut bad);
+    match panics::catch(|| serde_json::to_value(&v)) {
+        Err(p) => vfail(&mut out, "c20:encode-panic".into(), format!("Value::serialize: {}", p.describe())),
+        Ok(Err(e)) => {
+            if bad.is_empty() {
+                vfail(&mut out, format!("c20:transportable-value-refused:{root}"), format!("the hand-written Value serde refuses a value without Closure/ExternalFn/Store: {e}"));
+            } else {
+                out.refused = true;
+            }
+        }
+        Ok(Ok(j)) => {
+            if let Some((b, d)) = bad.first() {
+                vfail(&mut out, format!("c20:refused-value-accepted:{b}"), format!("hand-written Value serde: the value contains a {b} at depth {d}, yet Serialize returns Ok"));
+                return out;
+            }
+            let j2 = transcode_value(&j);
+            match panics::catch(|| serde_json::from_value::<Value>(j2.clone())) {
+                Err(p) => vfail(&mut out, "c20:decode-panic".into(), format!("Value::deserialize: {}", p.describe())),
+                Ok(Err(e)) => vfail(&mut out, format!("c20:valid-encoding-rejected:{root}"), format!("the hand-written Value Deserialize rejects the (positionally transcoded) output of Serialize: {e} (input {j2})")),
+                Ok(Ok(v2)) => {
+                    if let Err(m) = cmp_value(mv, &v2, &mut String::new(), false) {
+                        let (s, msg) = mismatch_sig("value-roundtrip-mismatch", &m);
+                        vfail(&mut out, s, format!("hand-written Value serde (serde_json, positional transcoding): {msg}"));
+                    }
+                }
+            }
+        }
+    }
+    out
+}
+
+/// decoder robustness: Ok or Err, never a panic.  Decoded ids are not dereferenced.
+fn check_bytes(bytes: &[u8]) -> (Option<(String, String)>, bool, bool) {
+    let a = panics::catch(|| deserialize_value(bytes).map(|_| ()));
+    let b = panics::catch(|| deserialize_macro_args(bytes).map(|_| ()));
+    let fail = match (&a, &b) {
+        (Err(p), _) => Some(("c20:decode-panic".to_string(), format!("deserialize_value: {}", p.describe()))),
+        (_, Err(p)) => Some(("c20:decode-panic".to_string(), format!("deserialize_macro_args: {}", p.describe()))),
+        _ => None,
+    };
+    (fail, matches!(a, Ok(Ok(()))), matches!(b, Ok(Ok(()))))
+}
+
+// ---------------------------------------------------------------- random generation
+
+const MAX_LEVEL: usize = 5;
+const MAX_WIDTH: usize = 6;
+
+const SIMPLE_NUMS: [f64; 8] = [0.0, 1.0, -1.0, 0.5, 42.5, 440.0, -3.25, 48000.0];
+const EDGE_BITS: [u64; 18] = [
+    0x7ff8_0000_0000_0000, // canonical quiet NaN
+    0x8000_0000_0000_0000, // -0.0
+    0x7ff0_0000_0000_0000, // +inf
+    0xfff0_0000_0000_0000, // -inf
+    0x7ff8_0000_0000_0001, // quiet NaN with payload
+    0x7ff0_0000_0000_0001, // signalling NaN
+    0xfff8_0000_0000_0000, // negative quiet NaN
+    0xffff_ffff_ffff_ffff, // all ones NaN
+    0x7ff4_dead_beef_cafe, // signalling NaN with payload
+    0x0000_0000_0000_0001, // smallest subnormal
+    0x000f_ffff_ffff_ffff, // largest subnormal
+    0x800f_ffff_ffff_ffff, // negative subnormal
+    0x0010_0000_0000_0000, // MIN_POSITIVE
+    0x7fef_ffff_ffff_ffff, // MAX
+    0xffef_ffff_ffff_ffff, // MIN
+    0x3cb0_0000_0000_0000, // EPSILON
+    0x4340_0000_0000_0001, // 2^53 + 2
+    0x3ff0_0000_0000_0001, // 1.0 + ulp
+];
+
+const STRINGS: [&str; 20] = ["a", "", "hello", "é", "e\u{301}", "日本語", "𝄞", "a\0b", "\0", "ﬁ", "\u{feff}", "\u{202e}abc", " \n\t", "\"\\", "ａ", "а", "a ", "A", "\u{10ffff}", "\u{7f}\u{80}"];
+const KEYS: [&str; 12] = ["a", "b", "ａ", "а", "", "a ", "A", "key", "_", "0", "é", "e\u{301}"];
+const CHARS: [char; 16] = ['a', 'b', 'z', '0', ' ', '_', '\0', '\n', 'é', 'ß', '日', '𝄞', '\u{301}', '"', '\\', '\u{fffd}'];
+
+fn gen_num(g: &mut Gen) -> u64 {
+    match g.weighted(&[5, 4, 2]) {
+        0 => g.pick(&SIMPLE_NUMS).to_bits(),
+        1 => *g.pick(&EDGE_BITS),
+        _ => g.word(),
+    }
+}
+
+fn gen_str(g: &mut Gen) -> String {
+    match g.weighted(&[6, 3, 1]) {
+        0 => g.pick(&STRINGS).to_string(),
+        1 => g.vec(0, 12, |g| *g.pick(&CHARS)).into_iter().collect(),
+        _ => {
+            let unit = *g.pick(&["x", "é", "ab\0", "𝄞"]);
+            unit.repeat(g.int(64, 400) as usize)
+        }
+    }
+}
+
+fn gen_key(g: &mut Gen) -> String {
+    if g.bool(1, 8) { gen_str(g) } else { g.pick(&KEYS).to_string() }
+}
+
+fn gen_leaf(g: &mut Gen) -> MV {
+    match g.weighted(&[2, 5, 4, 2]) {
+        0 => MV::Unit,
+        1 => MV::Num(gen_num(g)),
+        2 => MV::Str(gen_str(g)),
+        _ => MV::Code(g.usize_below(POOL_DESCR.len())),
+    }
+}
+
+/// transportable value tree; `level` of the node being generated (root = 1)
+fn gen_value(g: &mut Gen, level: usize, budget: &mut i64) -> MV {
+    *budget -= 1;
+    // the root is always an aggregate here (leaf roots are drawn in gen_root_value); level 2 rarely stops
+    if level >= MAX_LEVEL || *budget <= 0 || (level > 1 && g.bool(if level == 2 { 1 } else { 2 }, 5)) {
+        return gen_leaf(g);
+    }
+    match g.below(4) {
+        0 => MV::Array(g.vec(0, MAX_WIDTH, |g| gen_value(g, level + 1, budget))),
+        1 => MV::Tuple(g.vec(0, MAX_WIDTH, |g| gen_value(g, level + 1, budget))),
+        2 => MV::Record(g.vec(0, MAX_WIDTH, |g| {
+            let k = gen_key(g);
+            (k, gen_value(g, level + 1, budget))
+        })),
+        _ => {
+            let tag = match g.below(4) {
+                0 => g.below(8),
+                1 => u64::MAX,
+                2 => u32::MAX as u64 + 1,
+                _ => g.word(),
+            };
+            MV::Tagged(tag, Box::new(gen_value(g, level + 1, budget)))
+        }
+    }
+}
+
+fn gen_root_value(g: &mut Gen) -> MV {
+    let mut budget = g.int(1, 48);
+    // make most roots aggregates
+    if g.bool(1, 6) {
+        return gen_leaf(g);
+    }
+    let mut v = gen_value(g, 1, &mut budget);
+    if mv_is_leaf(&v) && g.bool(3, 4) {
+        v = MV::Tuple(vec![v, gen_leaf(g)]);
+    }
+    v
+}
+
+fn mv_is_leaf(v: &MV) -> bool {
+    matches!(v, MV::Unit | MV::Num(_) | MV::Str(_) | MV::Code(_))
+}
+
+fn gen_small_value(g: &mut Gen) -> MV {
+    let mut b = 4;
+    gen_value(g, MAX_LEVEL - 1, &mut b)
+}
+
+/// a node that may not cross the boundary
+fn gen_bad(g: &mut Gen) -> MV {
+    let name = |g: &mut Gen| g.pick(&["f", "", "loop", "日本"]).to_string();
+    match g.below(6) {
+        0 => MV::Fixpoint(name(g), g.usize_below(POOL_DESCR.len())),
+        1 => MV::ErrorV(g.usize_below(POOL_DESCR.len())),
+        2 => MV::ExtFn(name(g)),
+        3 => MV::Store(Box::new(gen_small_value(g))),
+        4 => {
+            let names = g.vec(0, 2, |g| g.pick(&KEYS).to_string());
+            let env = g.vec(0, 2, |g| {
+                let k = g.pick(&KEYS).to_string();
+                (k, gen_small_value(g))
+            });
+            MV::Closure(g.usize_below(POOL_DESCR.len()), names, env)
+        }
+        _ => {
+            let mut b = 4;
+            MV::Ctor(g.below(5), name(g), gen_type(g, 4, 5, &mut b, false))
+        }
+    }
+}
+
+fn count_nodes(v: &MV) -> usize {
+    1 + match v {
+        MV::Array(xs) | MV::Tuple(xs) => xs.iter().map(count_nodes).sum(),
+        MV::Record(fs) => fs.iter().map(|(_, x)| count_nodes(x)).sum(),
+        MV::Tagged(_, x) => count_nodes(x),
+        _ => 0,
+    }
+}
+
+/// replace the k-th node (pre-order over transportable structure) by `new`
+fn replace_nth(v: &mut MV, k: &mut usize, new: &mut Option<MV>) {
+    if new.is_none() {
+        return;
+    }
+    if *k == 0 {
+        *v = new.take().unwrap();
+        return;
+    }
+    *k -= 1;
+    match v {
+        MV::Array(xs) | MV::Tuple(xs) => xs.iter_mut().for_each(|x| replace_nth(x, k, new)),
+        MV::Record(fs) => fs.iter_mut().for_each(|(_, x)| replace_nth(x, k, new)),
+        MV::Tagged(_, x) => replace_nth(x, k, new),
+        _ => {}
+    }
+}
+
+fn plant_bad(g: &mut Gen, v: &mut MV) {
+    let n = count_nodes(v);
+    let mut k = g.usize_below(n);
+    let mut new = Some(gen_bad(g));
+    replace_nth(v, &mut k, &mut new);
+}
+
+fn gen_type(g: &mut Gen, level: usize, max_level: usize, budget: &mut i64, allow_refused: bool) -> MT {
+    *budget -= 1;
+    let name = |g: &mut Gen| g.pick(&["T", "Option", "", "型", "a b", "List"]).to_string();
+    if level >= max_level || *budget <= 0 || g.bool(2, 5) {
+        return match g.below(if allow_refused { 8 } else { 6 }) {
+            0 => MT::Prim(2),
+            1 => MT::Prim(g.below(4) as u8),
+            2 => MT::Any,
+            3 => MT::Failure,
+            4 => MT::Unknown,
+            5 => MT::Alias(name(g)),
+            6 => MT::IVar(g.below(100), g.below(4)),
+            _ => MT::Scheme(g.below(100)),
+        };
+    }
+    let mut sub = |g: &mut Gen| Box::new(gen_type(g, level + 1, max_level, budget, allow_refused));
+    match g.below(9) {
+        0 => MT::Array(sub(g)),
+        1 => {
+            let xs = g.vec(0, MAX_WIDTH, |g| *sub(g));
+            MT::Tuple(xs)
+        }
+        2 => {
+            let fs = g.vec(0, MAX_WIDTH, |g| {
+                let k = gen_key(g);
+                let t = *sub(g);
+                (k, t, g.coin())
+            });
+            MT::Record(fs)
+        }
+        3 => {
+            let a = sub(g);
+            let r = sub(g);
+            MT::Func(a, r)
+        }
+        4 => MT::Ref(sub(g)),
+        5 => MT::Code(sub(g)),
+        6 => {
+            let xs = g.vec(0, MAX_WIDTH, |g| *sub(g));
+            MT::Union(xs)
+        }
+        7 => {
+            let n = name(g);
+            let vs = g.vec(0, MAX_WIDTH, |g| {
+                let k = g.pick(&["A", "B", "None", "Some", "", "Ａ"]).to_string();
+                let p = if g.coin() { Some(*sub(g)) } else { None };
+                (k, p)
+            });
+            MT::UserSum(n, vs)
+        }
+        _ => MT::Boxed(sub(g)),
+    }
+}
+
+fn gen_root_type(g: &mut Gen, max_level: usize, allow_refused: bool) -> MT {
+    let mut budget = g.int(1, 40);
+    let mut t = gen_type(g, 1, max_level, &mut budget, allow_refused);
+    if !matches!(t, MT::IVar(..) | MT::Scheme(_)) && walk_depth_t(&t) < 2 && g.bool(2, 3) {
+        // leaf roots are over-represented by the budget rule: wrap most of them once
+        t = match g.below(3) {
+            0 => MT::Tuple(vec![t, MT::Prim(2)]),
+            1 => MT::Func(Box::new(t), Box::new(MT::Prim(0))),
+            _ => MT::Record(vec![("a".into(), t, true)]),
+        };
+    }
+    if allow_refused && g.bool(1, 12) {
+        // make sure the refused variants also occur at the root
+        return if g.coin() { MT::IVar(g.below(100), g.below(4)) } else { MT::Scheme(g.below(100)) };
+    }
+    t
+}
+
+fn walk_depth_t(t: &MT) -> usize {
+    let mut i = Info::default();
+    walk_t(t, 1, &mut i);
+    i.depth
+}
+
+fn strip_code(v: &mut MV) {
+    match v {
+        MV::Code(_) => *v = MV::Unit,
+        MV::Array(xs) | MV::Tuple(xs) => xs.iter_mut().for_each(strip_code),
+        MV::Record(fs) => fs.iter_mut().for_each(|(_, x)| strip_code(x)),
+        MV::Tagged(_, x) => strip_code(x),
+        _ => {}
+    }
+}
+
+/// JSON cannot carry NaN/inf: clear the top exponent bit of non-finite numbers
+fn make_finite(v: &mut MV) {
+    match v {
+        MV::Num(b) => {
+            if !f64::from_bits(*b).is_finite() {
+                *b &= !(1u64 << 62);
+            }
+        }
+        MV::Array(xs) | MV::Tuple(xs) => xs.iter_mut().for_each(make_finite),
+        MV::Record(fs) => fs.iter_mut().for_each(|(_, x)| make_finite(x)),
+        MV::Tagged(_, x) => make_finite(x),
+        MV::Store(x) => make_finite(x),
+        MV::Closure(_, _, env) => env.iter_mut().for_each(|(_, x)| make_finite(x)),
+        _ => {}
+    }
+}
+
+fn le32(x: u32) -> [u8; 4] {
+    x.to_le_bytes()
+}
+
+/// byte strings for the decoder: (bytes, mode label)
+fn gen_bytes(g: &mut Gen) -> (Vec<u8>, &'static str) {
+    let valid = |g: &mut Gen| -> Vec<u8> {
+        let mut v = gen_root_value(g);
+        strip_code(&mut v);
+        if g.coin() {
+            serialize_value(&build(&v)).unwrap_or_default()
+        } else {
+            let mut b = 6;
+            let t = gen_type(g, 3, 5, &mut b, false);
+            // the type key is process dependent: overwrite it with drawn numbers below
+            let mut bytes = serialize_macro_args(&[(build(&v), build_type(&t).into_id())]).unwrap_or_default();
+            let n = bytes.len();
+            if n >= 8 {
+                let idx = g.below(64) as u32;
+                let ver = g.below(4) as u32;
+                bytes[n - 8..n - 4].copy_from_slice(&le32(idx));
+                bytes[n - 4..].copy_from_slice(&le32(ver));
+            }
+            bytes
+        }
+    };
+    match g.below(6) {
+        0 => (g.vec(0, 48, |g| g.below(256) as u8), "random"),
+        1 => {
+            // plausible header: a small variant index, then random bytes biased to small numbers
+            let mut b = le32(g.below(11) as u32).to_vec();
+            b.extend(g.vec(0, 40, |g| if g.bool(2, 3) { g.below(4) as u8 } else { g.below(256) as u8 }));
+            (b, "tagged-random")
+        }
+        2 => {
+            let mut b = valid(g);
+            let n = g.usize_below(b.len() + 1);
+            b.truncate(n);
+            (b, "truncated")
+        }
+        3 => {
+            let mut b = valid(g);
+            if !b.is_empty() {
+                for _ in 0..g.int(1, 3) {
+                    let i = g.usize_below(b.len());
+                    b[i] ^= 1 << g.below(8);
+                }
+            }
+            (b, "bit-flipped")
+        }
+        4 => {
+            let mut b = valid(g);
+            if !b.is_empty() {
+                for _ in 0..g.int(1, 2) {
+                    let i = g.usize_below(b.len());
+                    b[i] = *g.pick(&[0xffu8, 0x7f, 0x80, 0x00, 0x09, 0x0a]);
+                }
+            }
+            (b, "byte-set")
+        }
+        _ => {
+            // nest: k times (TaggedUnion tag | Array of 1 | Tuple of huge length), then a valid encoding
+            let k = g.int(1, 200);
+            let mut b = vec![];
+            for _ in 0..k {
+                match g.below(3) {
+                    0 => {
+                        b.extend(le32(8));
+                        b.extend(g.word().to_le_bytes());
+                    }
+                    1 => {
+                        b.extend(le32(4));
+                        b.extend(1u64.to_le_bytes());
+                    }
+                    _ => {
+                        b.extend(le32(5));
+                        b.extend((*g.pick(&[1u64, u64::MAX, 1 << 40])).to_le_bytes());
+                    }
+                }
+            }
+            b.extend(valid(g));
+            (b, "nested")
+        }
+    }
+}
+
+// ---------------------------------------------------------------- exhaustive enumeration of small values
+
+const SMALL_LEAVES: usize = 8;
+const SMALL_KEYS: [&str; 2] = ["a", "а"];
+const SMALL_TAGS: [u64; 2] = [0, u64::MAX];
+
+fn small_leaf(i: u64) -> MV {
+    match i {
+        0 => MV::Unit,
+        1 => MV::Num(0),
+        2 => MV::Num(0x8000_0000_0000_0000),
+        3 => MV::Num(0x7ff8_0000_0000_0001),
+        4 => MV::Str(String::new()),
+        5 => MV::Str("é\0".into()),
+        6 => MV::Code(0),
+        _ => MV::Fixpoint("f".into(), 0),
+    }
+}
+
+/// number of sequences of length 0..=w over n symbols
+fn seqs(n: u64, w: u32) -> u64 {
+    (0..=w).map(|k| n.pow(k)).sum()
+}
+
+/// number of values of nesting depth <= widths.len() (widths[0] is the width at the root)
+fn small_count(widths: &[u32]) -> u64 {
+    let n0 = SMALL_LEAVES as u64;
+    match widths.split_first() {
+        None => n0,
+        Some((w, rest)) => {
+            let c = small_count(rest);
+            n0 + 2 * seqs(c, *w) + seqs(2 * c, *w) + 2 * c
+        }
+    }
+}
+
+fn small_seq(mut idx: u64, n: u64, w: u32) -> Vec<u64> {
+    for k in 0..=w {
+        let block = n.pow(k);
+        if idx < block {
+            let mut out = vec![];
+            for _ in 0..k {
+                out.push(idx % n);
+                idx /= n;
+            }
+            return out;
+        }
+        idx -= block;
+    }
+    vec![]
+}
+
+fn small_value(mut idx: u64, widths: &[u32]) -> MV {
+    let n0 = SMALL_LEAVES as u64;
+    let Some((w, rest)) = widths.split_first() else { return small_leaf(idx % n0) };
+    if idx < n0 {
+        return small_leaf(idx);
+    }
+    idx -= n0;
+    let c = small_count(rest);
+    let s = seqs(c, *w);
+    if idx < s {
+        return MV::Array(small_seq(idx, c, *w).into_iter().map(|i| small_value(i, rest)).collect());
+    }
+    idx -= s;
+    if idx < s {
+        return MV::Tuple(small_seq(idx, c, *w).into_iter().map(|i| small_value(i, rest)).collect());
+    }
+    idx -= s;
+    let sr = seqs(2 * c, *w);
+    if idx < sr {
+        return MV::Record(small_seq(idx, 2 * c, *w).into_iter().map(|i| (SMALL_KEYS[(i % 2) as usize].to_string(), small_value(i / 2, rest))).collect());
+    }
+    idx -= sr;
+    MV::Tagged(SMALL_TAGS[(idx % 2) as usize], Box::new(small_value((idx / 2) % c, rest)))
+}
+
+fn small_widths(tier: Tier) -> &'static [u32] {
+    match tier {
+        Tier::Quick => &[1, 2],
+        Tier::Thorough => &[2, 2],
+    }
+}
+
+// ---------------------------------------------------------------- shrinking of direct inputs
+
+fn shrink_v(v: &MV) -> Vec<MV> {
+    let mut out = vec![];
+    let kids: Vec<&MV> = match v {
+        MV::Array(xs) | MV::Tuple(xs) => xs.iter().collect(),
+        MV::Record(fs) => fs.iter().map(|(_, x)| x).collect(),
+        MV::Tagged(_, x) | MV::Store(x) => vec![x.as_ref()],
+        MV::Closure(_, _, env) => env.iter().map(|(_, x)| x).collect(),
+        _ => vec![],
+    };
+    // promote a child
+    for k in &kids {
+        out.push((*k).clone());
+    }
+    // drop an element
+    match v {
+        MV::Array(xs) | MV::Tuple(xs) => {
+            for i in 0..xs.len() {
+                let mut ys = xs.clone();
+                ys.remove(i);
+                out.push(if matches!(v, MV::Array(_)) { MV::Array(ys) } else { MV::Tuple(ys) });
+            }
+        }
+        MV::Record(fs) => {
+            for i in 0..fs.len() {
+                let mut gs = fs.clone();
+                gs.remove(i);
+                out.push(MV::Record(gs));
+            }
+            for i in 0..fs.len() {
+                if fs[i].0 != "a" {
+                    let mut gs = fs.clone();
+                    gs[i].0 = "a".into();
+                    out.push(MV::Record(gs));
+                }
+            }
+        }
+        MV::Closure(i, names, env) => {
+            if !names.is_empty() {
+                out.push(MV::Closure(*i, vec![], env.clone()));
+            }
+            for k in 0..env.len() {
+                let mut e = env.clone();
+                e.remove(k);
+                out.push(MV::Closure(*i, names.clone(), e));
+            }
+        }
+        MV::Tagged(t, x) if *t != 0 => out.push(MV::Tagged(0, x.clone())),
+        MV::Num(b) if *b != 0 => out.push(MV::Num(0)),
+        MV::Str(s) if !s.is_empty() => {
+            out.push(MV::Str(String::new()));
+            out.push(MV::Str(s.chars().take(s.chars().count() / 2).collect()));
+            out.push(MV::Str(s.chars().skip(1).collect()));
+        }
+        MV::Code(i) | MV::ErrorV(i) if *i != 0 => out.push(if matches!(v, MV::Code(_)) { MV::Code(0) } else { MV::ErrorV(0) }),
+        MV::Ctor(t, n, ty) => {
+            for s in shrink_t(ty) {
+                out.push(MV::Ctor(*t, n.clone(), s));
+            }
+        }
+        _ => {}
+    }
+    if !mv_is_leaf(v) && !mv_is_bad(v) {
+        out.push(MV::Unit);
+    }
+    // shrink inside a child
+    let with_child = |i: usize, s: MV| -> MV {
+        let mut c = v.clone();
+        match &mut c {
+            MV::Array(xs) | MV::Tuple(xs) => xs[i] = s,
+            MV::Record(fs) => fs[i].1 = s,
+            MV::Tagged(_, x) | MV::Store(x) => **x = s,
+            MV::Closure(_, _, env) => env[i].1 = s,
+            _ => {}
+        }
+        c
+    };
+    for (i, k) in kids.iter().enumerate() {
+        for s in shrink_v(k) {
+            out.push(with_child(i, s));
+        }
+    }
+    out
+}
+
+fn shrink_t(t: &MT) -> Vec<MT> {
+    let mut out = vec![];
+    let kids: Vec<&MT> = match t {
+        MT::Array(x) | MT::Ref(x) | MT::Code(x) | MT::Boxed(x) => vec![x.as_ref()],
+        MT::Tuple(xs) | MT::Union(xs) => xs.iter().collect(),
+        MT::Record(fs) => fs.iter().map(|(_, x, _)| x).collect(),
+        MT::Func(a, r) => vec![a.as_ref(), r.as_ref()],
+        MT::UserSum(_, vs) => vs.iter().filter_map(|(_, x)| x.as_ref()).collect(),
+        _ => vec![],
+    };
+    for k in &kids {
+        out.push((*k).clone());
+    }
+    match t {
+        MT::Tuple(xs) | MT::Union(xs) => {
+            for i in 0..xs.len() {
+                let mut ys = xs.clone();
+                ys.remove(i);
+                out.push(if matches!(t, MT::Tuple(_)) { MT::Tuple(ys) } else { MT::Union(ys) });
+            }
+        }
+        MT::Record(fs) => {
+            for i in 0..fs.len() {
+                let mut gs = fs.clone();
+                gs.remove(i);
+                out.push(MT::Record(gs));
+            }
+            for i in 0..fs.len() {
+                if fs[i].2 {
+                    let mut gs = fs.clone();
+                    gs[i].2 = false;
+                    out.push(MT::Record(gs));
+                }
+            }
+        }
+        MT::UserSum(n, vs) => {
+            for i in 0..vs.len() {
+                let mut ws = vs.clone();
+                ws.remove(i);
+                out.push(MT::UserSum(n.clone(), ws));
+            }
+            for i in 0..vs.len() {
+                if vs[i].1.is_some() {
+                    let mut ws = vs.clone();
+                    ws[i].1 = None;
+                    out.push(MT::UserSum(n.clone(), ws));
+                }
+            }
+        }
+        _ => {}
+    }
+    if !kids.is_empty() {
+        out.push(MT::Prim(2));
+    }
+    // shrink inside children (only for the single-child and list shapes)
+    match t {
+        MT::Array(x) | MT::Ref(x) | MT::Code(x) | MT::Boxed(x) => {
+            for s in shrink_t(x) {
+                out.push(match t {
+                    MT::Array(_) => MT::Array(Box::new(s)),
+                    MT::Ref(_) => MT::Ref(Box::new(s)),
+                    MT::Code(_) => MT::Code(Box::new(s)),
+                    _ => MT::Boxed(Box::new(s)),
+                });
+            }
+        }
+        MT::Tuple(xs) | MT::Union(xs) => {
+            for i in 0..xs.len() {
+                for s in shrink_t(&xs[i]) {
+                    let mut ys = xs.clone();
+                    ys[i] = s;
+                    out.push(if matches!(t, MT::Tuple(_)) { MT::Tuple(ys) } else { MT::Union(ys) });
+                }
+            }
+        }
+        MT::Record(fs) => {
+            for i in 0..fs.len() {
+                for s in shrink_t(&fs[i].1) {
+                    let mut gs = fs.clone();
+                    gs[i].1 = s;
+                    out.push(MT::Record(gs));
+                }
+            }
+        }
+        MT::Func(a, r) => {
+            for s in shrink_t(a) {
+                out.push(MT::Func(Box::new(s), r.clone()));
+            }
+            for s in shrink_t(r) {
+                out.push(MT::Func(a.clone(), Box::new(s)));
+            }
+        }
+        MT::UserSum(n, vs) => {
+            for i in 0..vs.len() {
+                if let Some(x) = &vs[i].1 {
+                    for s in shrink_t(x) {
+                        let mut ws = vs.clone();
+                        ws[i].1 = Some(s);
+                        out.push(MT::UserSum(n.clone(), ws));
+                    }
+                }
+            }
+        }
+        _ => {}
+    }
+    out
+}
+
+// ---------------------------------------------------------------- assembling case results
+
+fn hex(b: &[u8]) -> String {
+    let mut s = String::with_capacity(b.len() * 2);
+    for x in b {
+        let _ = write!(s, "{x:02x}");
+    }
+    s
+}
+fn unhex(s: &str) -> Option<Vec<u8>> {
+    if s.len() % 2 != 0 {
+        return None;
+    }
+    (0..s.len() / 2).map(|i| u8::from_str_radix(s.get(2 * i..2 * i + 2)?, 16).ok()).collect()
+}
+
+fn apply(mut r: CaseResult, v: &Verdict, labels: Vec<String>, mode: &str) -> CaseResult {
+    r.classes = labels;
+    r.classes.push(format!("mode:{mode}"));
+    if v.refused {
+        r.classes.push("refused".into());
+    }
+    if v.known_errorv {
+        r.classes.push("known:errorv".into());
+        r.count(&format!("excluded_by_known_finding:{KF_ERRORV}"), 1);
+    }
+    for e in &v.extra {
+        r.classes.push(e.to_string());
+    }
+    r
+}
+
+fn finish_value(mv: &MV, mode: &str, cx: &Cx) -> CaseResult {
+    let direct = || json!({"kind": if mode == "handvalue" { "handvalue" } else { "value" }, "v": v_json(mv)});
+    if cx.dry {
+        let mut r = CaseResult::discard("dry");
+        r.render = Some(direct());
+        r.direct = Some(direct());
+        return r;
+    }
+    let mut s = String::from("v|");
+    show_v(mv, &mut s);
+    let hash = hash64(s.as_bytes());
+    let mut info = Info::default();
+    walk_v(mv, 1, false, &mut info);
+    let verdict = if mode == "handvalue" { check_hand_value(mv) } else { check_value(mv, &info, !cx.strict && cx.excluded(KF_ERRORV)) };
+    let r = match &verdict.fail {
+        Some((sig, msg)) => CaseResult::fail(hash, sig.clone(), msg.clone()),
+        None => CaseResult::held(hash),
+    };
+    let mut labels = finish_labels(&mut info);
+    if let Some((_, d)) = info.bad.first() {
+        labels.push(format!("bad-node-depth:{d}"));
+    }
+    let mut r = apply(r, &verdict, labels, mode);
+    r.nontrivial = info.depth >= 2 || info.edge;
+    if cx.render || r.is_fail() {
+        r.render = Some(json!({"value": v_json(mv), "depth": info.depth, "nodes": info.nodes, "encoded_bytes": verdict.enc_len, "non_transportable": info.bad.iter().map(|(b, d)| format!("{b}@{d}")).collect::<Vec<_>>()}));
+        r.direct = Some(direct());
+    }
+    r
+}
+
+fn finish_args(args: &[(MV, MT)], cx: &Cx) -> CaseResult {
+    let direct = || json!({"kind": "args", "args": args.iter().map(|(v, t)| json!([v_json(v), t_json(t)])).collect::<Vec<_>>()});
+    if cx.dry {
+        let mut r = CaseResult::discard("dry");
+        r.render = Some(direct());
+        r.direct = Some(direct());
+        return r;
+    }
+    let mut s = format!("a{}|", args.len());
+    for (v, t) in args {
+        show_v(v, &mut s);
+        s.push('|');
+        show_t(t, &mut s);
+        s.push('|');
+    }
+    let hash = hash64(s.as_bytes());
+    let mut infos = vec![];
+    let mut labels: Vec<String> = vec![];
+    let (mut depth, mut edge, mut nodes) = (0, false, 0);
+    for (v, t) in args {
+        let mut info = Info::default();
+        walk_v(v, 1, false, &mut info);
+        let mut ti = Info::default();
+        walk_t(t, 1, &mut ti);
+        depth = depth.max(info.depth).max(ti.depth);
+        edge |= info.edge || ti.edge;
+        nodes += info.nodes + ti.nodes;
+        labels.extend(finish_labels(&mut info));
+        labels.extend(finish_labels(&mut ti));
+        infos.push(info);
+    }
+    labels.sort();
+    labels.dedup();
+    labels.push(if args.is_empty() { "args:empty".into() } else if args.len() == 1 { "args:one".to_string() } else { "args:many".to_string() });
+    let verdict = check_args(args, &infos, !cx.strict && cx.excluded(KF_ERRORV));
+    let r = match &verdict.fail {
+        Some((sig, msg)) => CaseResult::fail(hash, sig.clone(), msg.clone()),
+        None => CaseResult::held(hash),
+    };
+    let mut r = apply(r, &verdict, labels, "args");
+    r.nontrivial = !args.is_empty() && (depth >= 2 || edge || args.len() >= 2);
+    if cx.render || r.is_fail() {
+        r.render = Some(json!({"args": args.iter().map(|(v, t)| json!({"value": v_json(v), "type": t_json(t)})).collect::<Vec<_>>(), "nodes": nodes, "encoded_bytes": verdict.enc_len}));
+        r.direct = Some(direct());
+    }
+    r
+}
+
+fn finish_type(mt: &MT, cx: &Cx) -> CaseResult {
+    let direct = || json!({"kind": "type", "t": t_json(mt)});
+    if cx.dry {
+        let mut r = CaseResult::discard("dry");
+        r.render = Some(direct());
+        r.direct = Some(direct());
+        return r;
+    }
+    let mut s = String::from("t|");
+    show_t(mt, &mut s);
+    let hash = hash64(s.as_bytes());
+    let mut info = Info::default();
+    walk_t(mt, 1, &mut info);
+    let verdict = check_type(mt);
+    let r = match &verdict.fail {
+        Some((sig, msg)) => CaseResult::fail(hash, sig.clone(), msg.clone()),
+        None => CaseResult::held(hash),
+    };
+    let labels = finish_labels(&mut info);
+    let mut r = apply(r, &verdict, labels, "types");
+    if verdict.refused {
+        r.classes.push("refused-type".into());
+    }
+    r.nontrivial = info.depth >= 2 || info.edge;
+    if cx.render || r.is_fail() {
+        r.render = Some(json!({"type": t_json(mt), "depth": info.depth, "nodes": info.nodes}));
+        r.direct = Some(direct());
+    }
+    r
+}
+
+fn finish_bytes(bytes: &[u8], mode: &str, cx: &Cx) -> CaseResult {
+    let direct = || json!({"kind": "bytes", "hex": hex(bytes)});
+    if cx.dry {
+        let mut r = CaseResult::discard("dry");
+        r.render = Some(direct());
+        r.direct = Some(direct());
+        return r;
+    }
+    let hash = hash64(bytes);
+    let (fail, ok_value, ok_args) = check_bytes(bytes);
+    let mut r = match fail {
+        Some((sig, msg)) => CaseResult::fail(hash, sig, msg),
+        None => CaseResult::held(hash),
+    };
+    r.classes.push("mode:bytes".into());
+    r.classes.push(format!("bytes:{mode}"));
+    r.classes.push(if ok_value { "bytes:value-decodes".into() } else { "bytes:value-rejected".to_string() });
+    r.classes.push(if ok_args { "bytes:args-decode".into() } else { "bytes:args-rejected".to_string() });
+    r.nontrivial = bytes.len() >= 4;
+    if cx.render || r.is_fail() {
+        r.render = Some(json!({"hex": hex(bytes), "len": bytes.len(), "mode": mode, "decodes_as_value": ok_value, "decodes_as_args": ok_args}));
+        r.direct = Some(direct());
+    }
+    r
+}
+
+impl Prop for C20 {
+    fn id(&self) -> &'static str {
+        "C20"
+    }
+    fn spaces(&self, tier: Tier) -> Vec<Space> {
+        let small = small_count(small_widths(tier));
+        let sz = |q: u64, t: u64| if tier == Tier::Quick { q } else { t };
+        let chunk = sz(10_000, 100_000);
+        vec![
+            Space { name: "small", size: small, exhaustive: true, chunk: sz(4096, 100_000), case_timeout_s: 5.0, what: "every value of nesting depth <= 2 over 8 leaves (Unit, 0.0, -0.0, NaN with payload, \"\", \"é\\0\", Code, Fixpoint), arrays/tuples/records (keys Latin a / Cyrillic а)/tagged unions (tags 0, u64::MAX); inner width <= 2, outer width <= 1 (quick) / 2 (thorough)" },
+            Space { name: "values", size: sz(70_000, 4_000_000), exhaustive: false, chunk, case_timeout_s: 5.0, what: "random transportable value trees (depth <= 5, width <= 6) through to_ffi_value/to_value and serialize_value/deserialize_value" },
+            Space { name: "types", size: sz(30_000, 1_000_000), exhaustive: false, chunk, case_timeout_s: 5.0, what: "random type trees over all 16 Type variants: TypeNodeId through serialize_macro_args (bincode) and the hand-written Type serde through serde_json with positional transcoding" },
+            Space { name: "args", size: sz(30_000, 1_500_000), exhaustive: false, chunk, case_timeout_s: 5.0, what: "random macro argument lists [(value, type)] of length 0-6 through serialize_macro_args/deserialize_macro_args (1 in 10 with a non-transportable node)" },
+            Space { name: "refused", size: sz(30_000, 1_000_000), exhaustive: false, chunk, case_timeout_s: 5.0, what: "random value trees with one non-transportable node (Fixpoint, ErrorV, ExternalFn, Store, Closure, ConstructorFn) planted at a uniformly chosen node" },
+            Space { name: "handvalue", size: sz(10_000, 500_000), exhaustive: false, chunk, case_timeout_s: 5.0, what: "hand-written Value serde (interpreter/serde_impl.rs) through serde_json with positional transcoding; finite numbers only; half of the cases carry Fixpoint/ErrorV/ConstructorFn (kept) or Closure/ExternalFn/Store (refused)" },
+            Space { name: "bytes", size: sz(40_000, 1_500_000), exhaustive: false, chunk, case_timeout_s: 5.0, what: "decoder robustness: random bytes, tagged random bytes, truncated / bit-flipped / byte-overwritten valid encodings, up to 200 levels of nesting headers; both decoders must return without panicking" },
+        ]
+    }
+    fn run(&self, space: &str, index: u64, g: &mut Gen, cx: &Cx) -> CaseResult {
+        match space {
+            "small" => finish_value(&small_value(index, small_widths(cx.tier)), "small", cx),
+            "values" => finish_value(&gen_root_value(g), "values", cx),
+            "types" => finish_type(&gen_root_type(g, MAX_LEVEL, true), cx),
+            "args" => {
+                let bad = g.bool(1, 10);
+                let mut args = g.vec(0, MAX_WIDTH, |g| {
+                    let v = gen_root_value(g);
+                    let t = gen_root_type(g, 3, true);
+                    (v, t)
+                });
+                if bad && !args.is_empty() {
+                    let i = g.usize_below(args.len());
+                    plant_bad(g, &mut args[i].0);
+                }
+                finish_args(&args, cx)
+            }
+            "refused" => {
+                let mut v = gen_root_value(g);
+                plant_bad(g, &mut v);
+                finish_value(&v, "refused", cx)
+            }
+            "handvalue" => {
+                let mut v = gen_root_value(g);
+                if g.coin() {
+                    plant_bad(g, &mut v);
+                    if g.coin() {
+                        plant_bad(g, &mut v);
+                    }
+                }
+                make_finite(&mut v);
+                finish_value(&v, "handvalue", cx)
+            }
+            _ => {
+                let (b, mode) = gen_bytes(g);
+                finish_bytes(&b, mode, cx)
+            }
+        }
+    }
+    fn run_direct(&self, input: &J, cx: &Cx) -> Option<CaseResult> {
+        match input.get("kind")?.as_str()? {
+            "value" => Some(finish_value(&v_parse(input.get("v")?)?, "direct", cx)),
+            "handvalue" => Some(finish_value(&v_parse(input.get("v")?)?, "handvalue", cx)),
+            "type" => Some(finish_type(&t_parse(input.get("t")?)?, cx)),
+            "args" => {
+                let args: Option<Vec<(MV, MT)>> = input.get("args")?.as_array()?.iter().map(|p| Some((v_parse(p.get(0)?)?, t_parse(p.get(1)?)?))).collect();
+                Some(finish_args(&args?, cx))
+            }
+            "bytes" => Some(finish_bytes(&unhex(input.get("hex")?.as_str()?)?, "direct", cx)),
+            _ => None,
+        }
+    }
+    fn shrink_direct(&self, input: &J) -> Vec<J> {
+        let kind = input.get("kind").and_then(|k| k.as_str()).unwrap_or("");
+        match kind {
+            "value" | "handvalue" => input.get("v").and_then(v_parse).map(|v| shrink_v(&v).into_iter().map(|s| json!({"kind": kind, "v": v_json(&s)})).collect()).unwrap_or_default(),
+            "type" => input.get("t").and_then(t_parse).map(|t| shrink_t(&t).into_iter().map(|s| json!({"kind": "type", "t": t_json(&s)})).collect()).unwrap_or_default(),
+            "args" => {
+                let Some(args) = input.get("args").and_then(|a| a.as_array()).and_then(|a| a.iter().map(|p| Some((v_parse(p.get(0)?)?, t_parse(p.get(1)?)?))).collect::<Option<Vec<(MV, MT)>>>()) else { return vec![] };
+                let mk = |a: &[(MV, MT)]| json!({"kind": "args", "args": a.iter().map(|(v, t)| json!([v_json(v), t_json(t)])).collect::<Vec<_>>()});
+                let mut out = vec![];
+                for i in 0..args.len() {
+                    let mut a = args.clone();
+                    a.remove(i);
+                    out.push(mk(&a));
+                }
+                for i in 0..args.len() {
+                    for s in shrink_v(&args[i].0) {
+                        let mut a = args.clone();
+                        a[i].0 = s;
+                        out.push(mk(&a));
+                    }
+                    for s in shrink_t(&args[i].1) {
+                        let mut a = args.clone();
+                        a[i].1 = s;
+                        out.push(mk(&a));
+                    }
+                }
+                out
+            }
+            "bytes" => {
+                let Some(b) = input.get("hex").and_then(|h| h.as_str()).and_then(unhex) else { return vec![] };
+                let mut out = vec![];
+                let mk = |b: &[u8]| json!({"kind": "bytes", "hex": hex(b)});
+                let n = b.len();
+                let mut w = n / 2;
+                while w >= 1 {
+                    let mut i = 0;
+                    while i + w <= n {
+                        let mut c = b.clone();
+                        c.drain(i..i + w);
+                        out.push(mk(&c));
+                        i += w;
+                    }
+                    w /= 2;
+                }
+                for i in 0..n {
+                    if b[i] != 0 {
+                        let mut c = b.clone();
+                        c[i] = 0;
+                        out.push(mk(&c));
+                    }
+                }
+                out
+            }
+            _ => vec![],
+        }
+    }
+    fn rule(&self) -> String {
+        "Cases are harness-side models of values (Unit, Number by bit pattern incl. NaN payloads/±inf/−0/subnormals/raw 64-bit draws, String incl. empty/non-ASCII/NUL/long, Array, Tuple, Record incl. duplicate and look-alike keys, TaggedUnion incl. tags > u32::MAX, Code from a pool of 8 interned expressions; plus the non-transportable Fixpoint, ErrorV, ExternalFn, Store, Closure, ConstructorFn), of types (all 16 Type variants, records with has_default, sum types with/without payloads, Intermediate, TypeScheme) and of macro argument lists. Trees have depth <= 5 and width <= 6. Exhaustive: every value of nesting depth <= 2 over 8 leaves. The repository value/type is built from the model, encoded, decoded, and the result compared against the model (numbers by to_bits, strings/keys by content, code by interner key or structural print, types structurally through to_type(), locations ignored). Transportable values must be accepted by to_ffi_value, serialize_value, serialize_macro_args and come back equal through to_value / deserialize_value / deserialize_macro_args; a value with a non-transportable node anywhere must be refused (Err) by all encoders (ErrorV: refused or preserved); TypeNodeIds must come back structurally equal; the hand-written Type/Value serde must refuse exactly the variants it documents (Intermediate, TypeScheme / Closure, ExternalFn, Store) and round-trip all others (through serde_json with positional transcoding). Decoders must return Ok/Err without panicking on arbitrary bytes. Non-trivial = depth >= 2 or an edge scalar (NaN, inf, −0, subnormal, extreme magnitude, empty/non-ASCII/NUL/long string); argument lists also when they have >= 2 entries; byte strings when >= 4 bytes. Distinct by an injective structural rendering of the model (encoded bytes contain process-dependent interner keys).".into()
+    }
+    fn assumptions(&self) -> Vec<String> {
+        vec![
+            "host and plugin share one interner (set_external_session_globals), as the repository documents; ExprNodeId/TypeNodeId therefore cross as slotmap keys and are compared by key, falling back to a structural print / structural type comparison".into(),
+            "the harness cannot link bincode or serde (no dependency, Cargo.toml frozen): the hand-written Type/Value serde impls are exercised through serde_json plus a positional transcoding ({\"0\":x} -> x, {\"0\":a,\"1\":b} -> [a,b], variant key lower-cased or as is); numeric variant indices written by Serialize are not observed on this leg".into(),
+            "non-finite numbers are kept out of the serde_json leg of the hand-written Value serde (JSON cannot represent them); the bincode legs carry them".into(),
+            "ErrorV is not in the property's list of transportable values: the oracle accepts either Err or an ErrorV that comes back as ErrorV with the same expression".into(),
+            "ids decoded from arbitrary byte strings are never dereferenced (the repository's get_unchecked would be undefined behaviour); nesting in crafted byte strings is limited to 200 levels so that recursion depth stays far from the stack limit".into(),
+        ]
+    }
+    fn required_classes(&self, _tier: Tier) -> Vec<&'static str> {
+        vec![
+            "v:Unit", "v:Number", "v:String", "v:Array", "v:Tuple", "v:Record", "v:TaggedUnion", "v:Code", "v:ErrorV", "v:Fixpoint", "v:ExternalFn", "v:Store", "v:Closure", "v:ConstructorFn",
+            "t:Primitive", "t:Array", "t:Tuple", "t:Record", "t:Function", "t:Ref", "t:Code", "t:Union", "t:UserSum", "t:Boxed", "t:TypeAlias", "t:Any", "t:Failure", "t:Unknown", "t:Intermediate", "t:TypeScheme",
+            "t:has-default", "t:UserSum-payload", "t:UserSum-bare", "edge:nan", "edge:neg-zero", "edge:inf", "edge:subnormal", "empty-aggregate", "empty-string", "non-ascii", "nul-in-string", "long-string", "duplicate-keys",
+            "refused", "refused-type", "args:empty", "args:many", "bytes:value-decodes", "bytes:value-rejected", "bytes:args-decode", "bytes:truncated", "bytes:bit-flipped", "bytes:nested",
+            "mode:small", "mode:values", "mode:types", "mode:args", "mode:refused", "mode:handvalue", "mode:bytes",
+        ]
+    }
+}
 
 pub fn prop() -> Option<&'static dyn Prop> {
-    None
+    Some(&C20)
 }
